@@ -7437,4 +7437,2781 @@ theorem convert_emDoc (d : Doc) (sp : Spelling) (hwf : WF d = true) (hs : DocSpe
   exact convert_pieces2 {} rfl rfl ps hpsne hoks hadj
 
 
+/-! ## rung C grown: code spans and emphasis in the same paragraph or heading
+
+The development of sections 8–15 (code spans) and 16–24 (emphasis) is redone for lines that contain both kinds of item:
+the pattern loop takes the code spans out first (pattern 0), then the escapes (1), then the `*` emphases (14), then the
+`_` emphases (15). -/
+
+/-! ### 25. lines with code spans and emphasis: the items and the stages of the pattern loop -/
+
+/-- a code span (fence width, body) or an emphasis (`strong` or not, delimiter, words) -/
+inductive MKind
+  | code (n : Nat) (b : Str)
+  | em (strong : Bool) (d : Char) (w : Str)
+
+/-- an item and the plain text after it -/
+structure MSeg where
+  k : MKind
+  t : Str
+
+def MKind.src : MKind → Str
+  | .code n b => spanSrc n b
+  | .em s d w => emSrc ⟨s, d, w, []⟩
+
+def MKind.node : MKind → Node
+  | .code _ b => codeSpan (Code.codeEscape b)
+  | .em s _ w => emEl s w
+
+/-- 0 = code span, 1 = `*` emphasis, 2 = `_` emphasis: the order in which the pattern loop takes them out -/
+def MKind.cls : MKind → Nat
+  | .code _ _ => 0
+  | .em _ d _ => if d = '*' then 1 else 2
+
+def rawM (esc : List Char) : List MSeg → Str
+  | [] => []
+  | s :: r => s.k.src ++ (escAll esc s.t ++ rawM esc r)
+
+/-- an item after the classes below `lv` have been taken out: a placeholder (numbered per class) or still source -/
+def itemM (lv n0 n1 n2 : Nat) (k : MKind) : Str :=
+  if k.cls < lv then placeholder (if k.cls = 0 then n0 else if k.cls = 1 then n1 else n2) else k.src
+
+/-- the counter of class `c` after an item -/
+def bump (c : Nat) (k : MKind) (n : Nat) : Nat := if k.cls = c then n + 1 else n
+
+/-- the line after the classes below `lv` have been taken out (placeholders numbered per class from `n0`, `n1`,
+    `n2`), with the texts escaped (`pe = false`) or with their escapes as placeholders from `m` on -/
+def stageM (esc : List Char) (lv : Nat) (pe : Bool) : Nat → Nat → Nat → Nat → List MSeg → Str
+  | _, _, _, _, [] => []
+  | m, n0, n1, n2, s :: r =>
+    itemM lv n0 n1 n2 s.k ++ ((if pe then resid esc m s.t else escAll esc s.t) ++
+      stageM esc lv pe (m + escCount esc s.t) (bump 0 s.k n0) (bump 1 s.k n1) (bump 2 s.k n2) r)
+
+/-- the stash entries of one class, in order -/
+def nodesOf (c : Nat) : List MSeg → List StashItem
+  | [] => []
+  | s :: r => if s.k.cls = c then .node s.k.node :: nodesOf c r else nodesOf c r
+
+theorem stageM_raw (esc : List Char) (segs : List MSeg) :
+    ∀ m n0 n1 n2, stageM esc 0 false m n0 n1 n2 segs = rawM esc segs := by
+  induction segs with
+  | nil => intro _ _ _ _; rfl
+  | cons s r ih => intro m n0 n1 n2; simp [stageM, rawM, ih, itemM]
+
+/-- the shape of the items: a fence that the padded body does not close and padding that `strip` removes; a delimiter
+    character and words that hug it -/
+def MKindOK : MKind → Prop
+  | .code n b => (∃ k, n = k + 1) ∧ spanBodyOk n (padded b) = true ∧ strip (padded b) = b
+  | .em _ d w => (d = '*' ∨ d = '_') ∧ WordOK w ∧ Hug w
+
+def MKind.isCode : MKind → Bool
+  | .code _ _ => true
+  | _ => false
+
+/-- no text ends with a backslash directly before a code span, and two code spans do not touch -/
+def junctionsOK : Str → Bool → List MSeg → Prop
+  | _, _, [] => True
+  | t, prevCode, s :: r =>
+    (s.k.isCode = true → t.getLast? ≠ some '\\' ∧ (prevCode = true → t ≠ [])) ∧ junctionsOK s.t s.k.isCode r
+
+def MSegsOK (segs : List MSeg) : Prop := ∀ s ∈ segs, MKindOK s.k
+
+/-! #### pattern 0 walks over everything that is not a code span -/
+
+/-- the backtick pattern walks over `A` when `A` does not end with a backslash or what follows does not start with a
+    backtick or backslash -/
+def BtOK (A : Str) : Prop := ∀ (prev : Option Char) (Z : Str) (i : Nat),
+  (A.getLast? ≠ some '\\' ∨ (Z.head? ≠ some '`' ∧ Z.head? ≠ some '\\')) →
+    btScan prev (A ++ Z) i = btScan (lastOr prev A) Z (i + A.length)
+
+theorem btOK_nil : BtOK [] := fun prev Z i _ => by simp [lastOr]
+
+theorem btOK_plain (X : Str) (hX : noTickBs X) : BtOK X := fun prev Z i _ => btScan_skip X hX Z prev i
+
+theorem btOK_escAll {esc : List Char} (hb : '\\' ∈ esc) (ht : '`' ∈ esc) (r : Str) : BtOK (escAll esc r) := by
+  intro prev Z i h
+  rcases h with h | h
+  · by_cases hr : r = []
+    · subst hr; simp [escAll, lastOr]
+    · rw [getLast_escAll esc r hr] at h
+      exact btScan_escAll_then hb ht Z r prev i h
+  · exact btScan_escAll_nt hb ht Z h.1 h.2 r prev i
+
+theorem btOK_append {A B : Str} (hA : BtOK A) (hB : BtOK B)
+    (hj : B ≠ [] → A.getLast? ≠ some '\\' ∨ (B.head? ≠ some '`' ∧ B.head? ≠ some '\\')) : BtOK (A ++ B) := by
+  intro prev Z i h
+  by_cases hBn : B = []
+  · subst hBn
+    simp only [List.append_nil] at h ⊢
+    exact hA prev Z i h
+  · have hhead : (B ++ Z).head? = B.head? := by
+      cases B with
+      | nil => exact absurd rfl hBn
+      | cons b B' => rfl
+    have hlast : (A ++ B).getLast? = B.getLast? := by
+      rw [List.getLast?_append]
+      cases hg : B.getLast? with
+      | none => exact absurd (List.getLast?_eq_none_iff.1 hg) hBn
+      | some z => rfl
+    rw [List.append_assoc, hA prev (B ++ Z) i (by rw [hhead]; exact hj hBn),
+      hB _ Z _ (by rw [hlast] at h; exact h), lastOr_append, List.length_append]
+    congr 1; omega
+
+theorem noTickBs_placeholder (n : Nat) : noTickBs (placeholder n) := by
+  intro c hc
+  have := phChar_of_mem_placeholder hc
+  refine ⟨?_, (phChar_facts this).2.2.2.2.2.1⟩
+  intro e; subst e; exact absurd this (by decide)
+
+/-- one turn of the pattern loop at a code span after a prefix the backtick pattern walks over -/
+theorem applyPattern_codeAt (cfg : Inline.Cfg) (hi : HI) (P : Str) (hP : BtOK P) (hPl : P.getLast? ≠ some '\\')
+    (k : Nat) (body X : Str) (hbody : spanBodyOk (k + 1) body = true) (hX : X.head? ≠ some '`') (st : St) :
+    applyPattern cfg hi 0 (P ++ (ticks (k + 1) ++ (body ++ (ticks (k + 1) ++ X)))) 0 st =
+      some (P ++ (placeholder st.stash.length ++ X), true, 0,
+        { st with stash := st.stash ++ [.node (codeSpan (Code.codeEscape (strip body)))] }) := by
+  have hlo : lastOr none P ≠ some '\\' := by
+    unfold lastOr
+    cases hg : P.getLast? with
+    | none => simp
+    | some z => rw [hg] at hPl; simpa using hPl
+  have hscan : btFind (P ++ (ticks (k + 1) ++ (body ++ (ticks (k + 1) ++ X)))) 0 =
+      some ⟨.code, P.length, P.length + (k + 1) + body.length + (k + 1), body⟩ := by
+    simp only [btFind, show ¬ (0 > (P ++ (ticks (k + 1) ++ (body ++ (ticks (k + 1) ++ X)))).length) by omega,
+      if_false, if_true, List.drop_zero]
+    rw [hP none _ 0 (Or.inl hPl)]
+    have := btScan_span k body X hbody hX [] (fun c hc => by simp at hc) _ (0 + P.length) hlo
+    simp only [List.nil_append, List.length_nil, Nat.add_zero] at this
+    rw [this]
+    simp
+  have hlen : (P ++ (ticks (k + 1) ++ (body ++ (ticks (k + 1) ++ X)))).length =
+      P.length + (k + 1) + body.length + (k + 1) + X.length := by simp [ticks]; omega
+  have h1 : (P ++ (ticks (k + 1) ++ (body ++ (ticks (k + 1) ++ X)))).take P.length = P := by simp
+  have h2 : pyDrop (P ++ (ticks (k + 1) ++ (body ++ (ticks (k + 1) ++ X))))
+      ((P.length + (k + 1) + body.length + (k + 1) : Nat) : Int) = X := by
+    unfold pyDrop pyIdx
+    rw [hlen]
+    have : ¬ (((P.length + (k + 1) + body.length + (k + 1) : Nat) : Int) < 0) := by omega
+    simp only [this, if_false, Int.toNat_natCast]
+    rw [Nat.min_eq_left (by omega)]
+    rw [← List.append_assoc, ← List.append_assoc, ← List.append_assoc, List.drop_left' (by simp [ticks]; omega)]
+  unfold applyPattern findMatch
+  simp only [show ¬ (0 > (P ++ (ticks (k + 1) ++ (body ++ (ticks (k + 1) ++ X)))).length) by omega, if_false, hscan]
+  simp only [mkEl, Option.isSome_some, Bool.and_self, if_true, stashNode, h1, h2]
+  rw [List.append_assoc]
+  rfl
+
+
+theorem getLast_append_ne {A B : Str} (hB : B ≠ []) : (A ++ B).getLast? = B.getLast? := by
+  rw [List.getLast?_append]
+  cases hg : B.getLast? with
+  | none => exact absurd (List.getLast?_eq_none_iff.1 hg) hB
+  | some z => rfl
+
+/-- escaped text after a prefix that does not end with a backslash -/
+theorem btOK_text {esc : List Char} (hb : '\\' ∈ esc) (ht : '`' ∈ esc) {A : Str} (hA : BtOK A)
+    (hl : A.getLast? ≠ some '\\') (t : Str) : BtOK (A ++ escAll esc t) :=
+  btOK_append hA (btOK_escAll hb ht t) (fun _ => Or.inl hl)
+
+/-- an item without backtick or backslash (emphasis in source form, a placeholder) after that -/
+theorem btOK_item {P X : Str} (hP : BtOK P) (hX : noTickBs X) : BtOK (P ++ X) ∧ (X ≠ [] → (P ++ X).getLast? ≠ some '\\') := by
+  refine ⟨btOK_append hP (btOK_plain X hX) (fun hne => Or.inr ?_), fun hne => ?_⟩
+  · cases X with
+    | nil => exact absurd rfl hne
+    | cons x X' =>
+      have := hX x List.mem_cons_self
+      simp only [List.head?_cons, ne_eq, Option.some.injEq]
+      exact ⟨this.1, this.2⟩
+  · rw [getLast_append_ne hne]
+    intro e
+    exact (hX _ (List.mem_of_getLast? e)).2 rfl
+
+theorem emK_src_facts (st : Bool) (d : Char) (w : Str) (h : MKindOK (.em st d w)) :
+    noTickBs (MKind.src (.em st d w)) ∧ MKind.src (.em st d w) ≠ [] := by
+  obtain ⟨hd, hw, _⟩ := h
+  exact ⟨noTickBs_emSrc (s := ⟨st, d, w, []⟩) hd hw, emSrc_ne_nil _⟩
+
+theorem cls_code (n : Nat) (b : Str) : (MKind.code n b).cls = 0 := rfl
+
+theorem cls_em_pos (st : Bool) (d : Char) (w : Str) : 0 < (MKind.em st d w).cls := by
+  simp only [MKind.cls]; split <;> omega
+
+theorem head_stage_raw (esc : List Char) (ht : '`' ∈ esc) (t : Str) (pc : Bool) (r : List MSeg) (hok : MSegsOK r)
+    (hj : junctionsOK t pc r) (hpc : pc = true) (m n0 n1 n2 : Nat) :
+    (escAll esc t ++ stageM esc 0 false m n0 n1 n2 r).head? ≠ some '`' := by
+  by_cases htn : t = []
+  · subst htn
+    simp only [escAll, List.nil_append]
+    cases r with
+    | nil => simp [stageM]
+    | cons s r' =>
+      cases hk : s.k with
+      | code n b =>
+        have := (hj.1 (by rw [hk]; rfl)).2 hpc
+        exact absurd rfl this
+      | em st d w =>
+        have hs := hok s List.mem_cons_self
+        rw [hk] at hs
+        obtain ⟨q, hq⟩ := delim_cons ⟨st, d, w, []⟩
+        have : ¬ ((MKind.em st d w).cls < 0) := by omega
+        simp only [stageM, itemM, hk, this, if_false, MKind.src, emSrc, hq, List.cons_append, List.head?_cons]
+        rcases hs.1 with e | e <;> simp [e]
+  · have := head_escAll_ne_tick (esc := esc) ht t
+    have hne := escAll_ne_nil (esc := esc) htn
+    cases hx : escAll esc t with
+    | nil => exact absurd hx hne
+    | cons a b => rw [hx] at this; simpa using this
+
+/-- **the backtick pass**: one turn of the pattern loop per code span, left to right; emphasis is walked over -/
+theorem code_pass (cfg : Inline.Cfg) (hi : HI) (hb : '\\' ∈ cfg.esc) (ht : '`' ∈ cfg.esc) (segs : List MSeg) :
+    ∀ (A t : Str) (pc : Bool) (m n0 n1 n2 : Nat) (st : St) (g : Nat), BtOK A → A.getLast? ≠ some '\\' →
+      MSegsOK segs → junctionsOK t pc segs →
+      hiLoop (applyPattern cfg hi) (g + (nodesOf 0 segs).length)
+        (A ++ (escAll cfg.esc t ++ stageM cfg.esc 0 false m n0 n1 n2 segs)) 0 0 st =
+      hiLoop (applyPattern cfg hi) g
+        (A ++ (escAll cfg.esc t ++ stageM cfg.esc 1 false m st.stash.length n1 n2 segs)) 0 0
+        { st with stash := st.stash ++ nodesOf 0 segs } := by
+  induction segs with
+  | nil => intro A t pc m n0 n1 n2 st g _ _ _ _; simp [stageM, nodesOf]
+  | cons s r ih =>
+    intro A t pc m n0 n1 n2 st g hA hAl hok hj
+    have hokr : MSegsOK r := fun x hx => hok x (List.mem_cons_of_mem _ hx)
+    have hs := hok s List.mem_cons_self
+    have hP := btOK_text hb ht hA hAl t
+    cases hk : s.k with
+    | code n b =>
+      rw [hk] at hs
+      obtain ⟨⟨k, hkn⟩, hbody, hstrip⟩ := hs
+      have hjs := hj.1 (by rw [hk]; rfl)
+      have hPl : (A ++ escAll cfg.esc t).getLast? ≠ some '\\' := by
+        by_cases htn : t = []
+        · subst htn; simpa [escAll] using hAl
+        · rw [getLast_append_ne (escAll_ne_nil htn), getLast_escAll _ _ htn]; exact hjs.1
+      have hX := head_stage_raw cfg.esc ht s.t true r hokr (by have := hj.2; rw [hk] at this; exact this) rfl
+        (m + escCount cfg.esc s.t) (n0 + 1) n1 n2
+      have hstep := applyPattern_codeAt cfg hi _ hP hPl k (padded b) _ (hkn ▸ hbody) hX st
+      have hA' := btOK_item hP (noTickBs_placeholder st.stash.length)
+      have hne : placeholder st.stash.length ≠ [] := by
+        have := placeholder_length_pos st.stash.length
+        intro e; rw [e] at this; simp at this
+      have := ih ((A ++ escAll cfg.esc t) ++ placeholder st.stash.length) s.t true (m + escCount cfg.esc s.t)
+        (n0 + 1) n1 n2 { st with stash := st.stash ++ [.node (codeSpan (Code.codeEscape (strip (padded b))))] } g
+        hA'.1 (hA'.2 hne) hokr (by have := hj.2; rw [hk] at this; exact this)
+      simp only [stageM, itemM, bump, nodesOf, hk, cls_code, Nat.lt_irrefl, if_false, if_true, Nat.lt_one_iff,
+        List.length_cons, MKind.src, MKind.node, spanSrc, hkn, List.append_assoc, Bool.false_eq_true,
+        show ¬ ((0 : Nat) = 1) by omega, show ¬ ((0 : Nat) = 2) by omega] at this ⊢
+      rw [show g + ((nodesOf 0 r).length + 1) = (g + (nodesOf 0 r).length) + 1 by omega]
+      have hstep' := hstep
+      simp only [List.append_assoc] at hstep'
+      rw [hiLoop_step _ _ _ 0 0 st (by omega) _ _ _ _ hstep']
+      simp only [if_true]
+      rw [this, hstrip]
+      simp only [List.length_append, List.length_cons, List.length_nil, List.append_assoc, List.singleton_append,
+        List.cons_append, List.nil_append, Nat.zero_add]
+    | em st' d w =>
+      rw [hk] at hs
+      obtain ⟨hsrc, hsne⟩ := emK_src_facts st' d w hs
+      have hA' := btOK_item hP hsrc
+      have hpos := cls_em_pos st' d w
+      have := ih ((A ++ escAll cfg.esc t) ++ MKind.src (.em st' d w)) s.t false (m + escCount cfg.esc s.t)
+        n0 (if (MKind.em st' d w).cls = 1 then n1 + 1 else n1) (if (MKind.em st' d w).cls = 2 then n2 + 1 else n2)
+        st g hA'.1 (hA'.2 hsne) hokr (by have := hj.2; rw [hk] at this; exact this)
+      have h0 : ¬ ((MKind.em st' d w).cls < 0) := by omega
+      have h1 : ¬ ((MKind.em st' d w).cls < 1) := by omega
+      have h2 : ¬ ((MKind.em st' d w).cls = 0) := by omega
+      simp only [stageM, itemM, bump, nodesOf, hk, h0, h1, h2, if_false, List.append_assoc, Bool.false_eq_true] at this ⊢
+      exact this
+
+
+/-! #### once the code spans are out -/
+
+theorem placeholder_ne_nil (n : Nat) : placeholder n ≠ [] := by
+  have := placeholder_length_pos n
+  intro e; rw [e] at this; simp at this
+
+/-- from level 1 on an item is a placeholder or an emphasis in source form -/
+theorem itemM_cases (lv n0 n1 n2 : Nat) (k : MKind) (hlv : 1 ≤ lv) (hk : MKindOK k) :
+    (∃ n, itemM lv n0 n1 n2 k = placeholder n) ∨
+    (∃ st d w, k = .em st d w ∧ itemM lv n0 n1 n2 k = emSrc ⟨st, d, w, []⟩ ∧ (d = '*' ∨ d = '_') ∧ WordOK w ∧ Hug w) := by
+  unfold itemM
+  by_cases h : k.cls < lv
+  · simp only [h, if_true]; exact Or.inl ⟨_, rfl⟩
+  · simp only [h, if_false]
+    cases k with
+    | code n b => exact absurd (by rw [cls_code]; omega) h
+    | em st d w => exact Or.inr ⟨st, d, w, rfl, rfl, hk⟩
+
+theorem itemM_plain (lv n0 n1 n2 : Nat) (k : MKind) (hlv : 1 ≤ lv) (hk : MKindOK k) :
+    noTickBs (itemM lv n0 n1 n2 k) ∧ itemM lv n0 n1 n2 k ≠ [] := by
+  rcases itemM_cases lv n0 n1 n2 k hlv hk with ⟨n, h⟩ | ⟨st, d, w, _, h, hd, hw, _⟩
+  · rw [h]; exact ⟨noTickBs_placeholder n, placeholder_ne_nil n⟩
+  · rw [h]; exact ⟨noTickBs_emSrc (s := ⟨st, d, w, []⟩) hd hw, emSrc_ne_nil _⟩
+
+theorem btScan_stage1 {esc : List Char} (hb : '\\' ∈ esc) (ht : '`' ∈ esc) (segs : List MSeg) :
+    ∀ (A t : Str) (m n0 n1 n2 : Nat) (prev : Option Char) (i : Nat), BtOK A → A.getLast? ≠ some '\\' →
+      MSegsOK segs → btScan prev (A ++ (escAll esc t ++ stageM esc 1 false m n0 n1 n2 segs)) i = none := by
+  induction segs with
+  | nil =>
+    intro A t m n0 n1 n2 prev i hA hAl _
+    have hP := btOK_text hb ht hA hAl t
+    have := hP prev [] i (Or.inr (by simp))
+    simp only [stageM, List.append_nil] at this ⊢
+    rw [this]; simp [btScan, btAt_nil]
+  | cons s r ih =>
+    intro A t m n0 n1 n2 prev i hA hAl hok
+    have hP := btOK_text hb ht hA hAl t
+    obtain ⟨hpl, hne⟩ := itemM_plain 1 n0 n1 n2 s.k (by omega) (hok s List.mem_cons_self)
+    have hA' := btOK_item hP hpl
+    have := ih ((A ++ escAll esc t) ++ itemM 1 n0 n1 n2 s.k) s.t (m + escCount esc s.t) (bump 0 s.k n0)
+      (bump 1 s.k n1) (bump 2 s.k n2) prev i hA'.1 (hA'.2 hne) (fun x hx => hok x (List.mem_cons_of_mem _ hx))
+    simp only [stageM, List.append_assoc, Bool.false_eq_true, if_false] at this ⊢
+    exact this
+
+/-- the number of escapes in the texts after the items -/
+def escCountM (esc : List Char) : List MSeg → Nat
+  | [] => 0
+  | s :: r => escCount esc s.t + escCountM esc r
+
+def stashOfM (esc : List Char) : List MSeg → List StashItem
+  | [] => []
+  | s :: r => stashOf esc s.t ++ stashOfM esc r
+
+theorem bs_not_mem_item (lv n0 n1 n2 : Nat) (k : MKind) (hlv : 1 ≤ lv) (hk : MKindOK k) : '\\' ∉ itemM lv n0 n1 n2 k :=
+  fun h => ((itemM_plain lv n0 n1 n2 k hlv hk).1 _ h).2 rfl
+
+/-- **the escape pass**, text by text -/
+theorem esc_passM (cfg : Inline.Cfg) (hi : HI) (hb : '\\' ∈ cfg.esc) (lv : Nat) (hlv : 1 ≤ lv) (segs : List MSeg) :
+    ∀ (A : Str) (m n0 n1 n2 : Nat) (st : St) (g : Nat), '\\' ∉ A → MSegsOK segs →
+      hiLoop (applyPattern cfg hi) (g + escCountM cfg.esc segs) (A ++ stageM cfg.esc lv false m n0 n1 n2 segs) 1 0 st =
+      hiLoop (applyPattern cfg hi) g (A ++ stageM cfg.esc lv true st.stash.length n0 n1 n2 segs) 1 0
+        { st with stash := st.stash ++ stashOfM cfg.esc segs } := by
+  induction segs with
+  | nil => intro A m n0 n1 n2 st g _ _; simp [stageM, escCountM, stashOfM]
+  | cons s r ih =>
+    intro A m n0 n1 n2 st g hA hok
+    have hokr : MSegsOK r := fun x hx => hok x (List.mem_cons_of_mem _ hx)
+    have hA1 : '\\' ∉ A ++ itemM lv n0 n1 n2 s.k := by
+      intro hh; rcases List.mem_append.1 hh with hh | hh
+      · exact hA hh
+      · exact bs_not_mem_item lv n0 n1 n2 s.k hlv (hok s List.mem_cons_self) hh
+    have h1 := escape_chunk cfg hi hb
+      (stageM cfg.esc lv false (m + escCount cfg.esc s.t) (bump 0 s.k n0) (bump 1 s.k n1) (bump 2 s.k n2) r) s.t
+      (A ++ itemM lv n0 n1 n2 s.k) st (g + escCountM cfg.esc r) hA1
+    have hA2 : '\\' ∉ A ++ itemM lv n0 n1 n2 s.k ++ resid cfg.esc st.stash.length s.t := by
+      intro hh; rcases List.mem_append.1 hh with hh | hh
+      · exact hA1 hh
+      · exact bs_not_mem_resid hb _ _ hh
+    have h2 := ih (A ++ itemM lv n0 n1 n2 s.k ++ resid cfg.esc st.stash.length s.t) (m + escCount cfg.esc s.t)
+      (bump 0 s.k n0) (bump 1 s.k n1) (bump 2 s.k n2) { st with stash := st.stash ++ stashOf cfg.esc s.t } g hA2 hokr
+    simp only [stageM, escCountM, stashOfM, List.append_assoc, Bool.false_eq_true, if_false, if_true] at h1 h2 ⊢
+    rw [show g + (escCount cfg.esc s.t + escCountM cfg.esc r) = g + escCountM cfg.esc r + escCount cfg.esc s.t by omega,
+      h1, h2]
+    simp [escCount]
+
+
+/-! #### pattern 13 -/
+
+theorem nsScan_stageM {esc : List Char} (h1 : '*' ∈ esc) (h2 : '_' ∈ esc) (lv : Nat) (hlv : 1 ≤ lv) (segs : List MSeg) :
+    ∀ (m n0 n1 n2 : Nat) (prev : Option Char) (i : Nat), MSegsOK segs →
+      nsScan prev (stageM esc lv true m n0 n1 n2 segs) i = none := by
+  induction segs with
+  | nil => intro _ _ _ _ prev i _; rfl
+  | cons s r ih =>
+    intro m n0 n1 n2 prev i hok
+    have hokr : MSegsOK r := fun x hx => hok x (List.mem_cons_of_mem _ hx)
+    simp only [stageM, if_true]
+    rcases itemM_cases lv n0 n1 n2 s.k hlv (hok s List.mem_cons_self) with ⟨n, h⟩ | ⟨st, d, w, _, h, hd, hw, hh⟩
+    · rw [h, nsScan_text _ (fun c hc => ⟨(phChar_facts (phChar_of_mem_placeholder hc)).2.2.2.1,
+        (phChar_facts (phChar_of_mem_placeholder hc)).2.2.2.2.1⟩), nsScan_text _ (resid_no_delim h1 h2 s.t m)]
+      exact ih _ _ _ _ _ _ hokr
+    · rw [h, nsScan_em ⟨st, d, w, []⟩ hd hw hh, nsScan_text _ (resid_no_delim h1 h2 s.t m)]
+      exact ih _ _ _ _ _ _ hokr
+
+/-! #### patterns 14 and 15 -/
+
+theorem cls_star (st : Bool) (w : Str) : (MKind.em st '*' w).cls = 1 := by simp [MKind.cls]
+
+theorem cls_under (st : Bool) (d : Char) (w : Str) (hd : d ≠ '*') : (MKind.em st d w).cls = 2 := by
+  simp [MKind.cls, hd]
+
+theorem not_mem_of_append3 {c : Char} {A B C : Str} (hA : c ∉ A) (hB : c ∉ B) (hC : c ∉ C) : c ∉ A ++ (B ++ C) := by
+  intro h
+  rcases List.mem_append.1 h with h | h
+  · exact hA h
+  · rcases List.mem_append.1 h with h | h
+    · exact hB h
+    · exact hC h
+
+theorem star_passM (cfg : Inline.Cfg) (f : Nat) (h1 : '*' ∈ cfg.esc) (h2 : '_' ∈ cfg.esc) (segs : List MSeg) :
+    ∀ (A : Str) (m n0 n1 n2 : Nat) (st : St) (g : Nat), '*' ∉ A → MSegsOK segs →
+      hiLoop (applyPattern cfg (fun d p s => handleInline cfg (f + 1) d p s)) (g + (nodesOf 1 segs).length)
+        (A ++ stageM cfg.esc 1 true m n0 n1 n2 segs) 14 0 st =
+      hiLoop (applyPattern cfg (fun d p s => handleInline cfg (f + 1) d p s)) g
+        (A ++ stageM cfg.esc 2 true m n0 st.stash.length n2 segs) 14 0
+        { st with stash := st.stash ++ nodesOf 1 segs } := by
+  induction segs with
+  | nil => intro A m n0 n1 n2 st g _ _; simp [stageM, nodesOf]
+  | cons s r ih =>
+    intro A m n0 n1 n2 st g hA hok
+    have hokr : MSegsOK r := fun x hx => hok x (List.mem_cons_of_mem _ hx)
+    have hs := hok s List.mem_cons_self
+    have hres : '*' ∉ resid cfg.esc m s.t := fun h => (resid_no_delim h1 h2 s.t m _ h).1 rfl
+    cases hk : s.k with
+    | code n b =>
+      have := ih (A ++ (placeholder n0 ++ resid cfg.esc m s.t)) (m + escCount cfg.esc s.t) (n0 + 1) n1 n2 st g
+        (not_mem_of_append3 hA (not_mem_placeholder (by decide) _) hres) hokr
+      simp only [stageM, itemM, bump, nodesOf, hk, cls_code, if_true, List.append_assoc,
+        show (0 : Nat) < 1 by omega, show (0 : Nat) < 2 by omega, show ¬ ((0 : Nat) = 1) by omega,
+        show ¬ ((0 : Nat) = 2) by omega, if_false] at this ⊢
+      exact this
+    | em st' d w =>
+      rw [hk] at hs
+      obtain ⟨hd, hw, hh⟩ := hs
+      by_cases hds : d = '*'
+      · subst hds
+        have hc := cls_star st' w
+        obtain ⟨q, hq⟩ := delim_cons ⟨st', '*', w, []⟩
+        have hE : emSrc ⟨st', '*', w, []⟩ = '*' :: (q ++ (w ++ EmSeg.delim ⟨st', '*', w, []⟩)) := by
+          rw [emSrc, hq]; rfl
+        have hhm := emHandle_seg ⟨st', '*', w, []⟩ (Or.inl rfl) hw A
+          (resid cfg.esc m s.t ++ stageM cfg.esc 1 true (m + escCount cfg.esc s.t) n0 (n1 + 1) n2 r)
+          (fun e => absurd (show ('*' : Char) = '_' from e) (by decide))
+        have hstep := applyPattern_em cfg f 14 (Or.inl rfl) '*' rfl A (emSrc ⟨st', '*', w, []⟩)
+          (resid cfg.esc m s.t ++ stageM cfg.esc 1 true (m + escCount cfg.esc s.t) n0 (n1 + 1) n2 r) hA _ hE st' w hw
+          st hhm
+        have := ih (A ++ (placeholder st.stash.length ++ resid cfg.esc m s.t)) (m + escCount cfg.esc s.t) n0
+          (n1 + 1) n2 { st with stash := st.stash ++ [.node (emEl st' w)] } g
+          (not_mem_of_append3 hA (not_mem_placeholder (by decide) _) hres) hokr
+        simp only [stageM, itemM, bump, nodesOf, hk, hc, if_true, List.append_assoc, Nat.lt_irrefl,
+          show (1 : Nat) < 2 by omega, show ¬ ((1 : Nat) = 0) by omega,
+          show ¬ ((1 : Nat) = 2) by omega, if_false, List.length_cons, MKind.src, MKind.node] at this ⊢
+        rw [show g + ((nodesOf 1 r).length + 1) = (g + (nodesOf 1 r).length) + 1 by omega,
+          hiLoop_step _ _ _ 14 0 st (by omega) _ _ _ _ hstep]
+        simp only [if_true]
+        rw [this]
+        simp
+      · have hdu : d = '_' := by rcases hd with e | e; exact absurd e hds; exact e
+        have hc := cls_under st' d w hds
+        have hsrc : '*' ∉ emSrc ⟨st', d, w, []⟩ := by
+          intro hx
+          rcases mem_emSrc hx with e | e
+          · exact hds e.symm
+          · exact (wordCh_facts (hw.2 _ e)).1 rfl
+        have := ih (A ++ (emSrc ⟨st', d, w, []⟩ ++ resid cfg.esc m s.t)) (m + escCount cfg.esc s.t) n0 n1 (n2 + 1)
+          st g (not_mem_of_append3 hA hsrc hres) hokr
+        simp only [stageM, itemM, bump, nodesOf, hk, hc, if_true, List.append_assoc, Nat.lt_irrefl,
+          show ¬ ((2 : Nat) < 1) by omega, show ¬ ((2 : Nat) = 0) by omega,
+          show ¬ ((2 : Nat) = 1) by omega, if_false, MKind.src] at this ⊢
+        exact this
+
+
+/-- the character after an item is not a word character: an escape, a non-word character, the end, or an item that is
+    a placeholder by the time the `_` pass runs (code span, `*` emphasis) -/
+def nextNWM (esc : List Char) (t : Str) (r : List MSeg) : Prop :=
+  match t, r with
+  | c :: _, _ => c ∈ esc ∨ isWord c = false
+  | [], [] => True
+  | [], s' :: _ => s'.k.cls ≠ 2
+
+/-- every `_` emphasis stands between characters that are not word characters -/
+def UnderOKM (esc : List Char) : Bool → List MSeg → Prop
+  | _, [] => True
+  | pw, s :: r => (s.k.cls = 2 → pw = false ∧ nextNWM esc s.t r) ∧ UnderOKM esc (lastW esc s.t) r
+
+theorem isW_head_nextM (esc : List Char) (t : Str) (m n0 n1 n2 : Nat) (r : List MSeg) (h : nextNWM esc t r) :
+    isW (resid esc m t ++ stageM esc 2 true (m + escCount esc t) n0 n1 n2 r).head? = false := by
+  cases t with
+  | cons c t' =>
+    by_cases hc : c ∈ esc
+    · simp only [resid, List.contains_eq_mem, hc, decide_true, if_true, List.append_assoc]
+      rw [head_placeholder]; decide
+    · have : isWord c = false := by
+        rcases h with h | h
+        · exact absurd h hc
+        · exact h
+      simp [resid, hc, isW, this]
+  | nil =>
+    cases r with
+    | nil => simp [resid, stageM, isW]
+    | cons s' r' =>
+      have hs : s'.k.cls ≠ 2 := h
+      have hlt : s'.k.cls < 2 := by
+        have : s'.k.cls ≤ 2 := by
+          cases s'.k with
+          | code _ _ => simp [MKind.cls]
+          | em _ d _ => simp only [MKind.cls]; split <;> omega
+        omega
+      simp only [resid, List.nil_append, stageM, itemM, hlt, if_true]
+      rw [head_placeholder]; decide
+
+theorem noTriple_stage2M {esc : List Char} (h1 : '*' ∈ esc) (h2 : '_' ∈ esc) (segs : List MSeg) :
+    ∀ (m n0 n1 n2 : Nat) (pw : Bool), MSegsOK segs → UnderOKM esc pw segs →
+      NoTriple '_' (stageM esc 2 true m n0 n1 n2 segs) := by
+  induction segs with
+  | nil => intro _ _ _ _ _ _ _; exact noTriple_nil _
+  | cons s r ih =>
+    intro m n0 n1 n2 pw hok hu
+    have hokr : MSegsOK r := fun x hx => hok x (List.mem_cons_of_mem _ hx)
+    have hrest := ih (m + escCount esc s.t) (bump 0 s.k n0) (bump 1 s.k n1) (bump 2 s.k n2) _ hokr hu.2
+    have hres : '_' ∉ resid esc m s.t := fun h => (resid_no_delim h1 h2 s.t m _ h).2 rfl
+    have hZ := noTriple_of_no_c '_' _ _ hres hrest
+    simp only [stageM, if_true]
+    by_cases hc : s.k.cls < 2
+    · simp only [itemM, hc, if_true]
+      exact noTriple_of_no_c '_' _ _ (not_mem_placeholder (by decide) _) hZ
+    · cases hk : s.k with
+      | code n b => rw [hk, cls_code] at hc; omega
+      | em st d w =>
+        have hs := hok s List.mem_cons_self
+        rw [hk] at hs hc
+        obtain ⟨hd, hw, hh⟩ := hs
+        have hdu : d = '_' := by
+          rcases hd with e | e
+          · rw [e, cls_star] at hc; omega
+          · exact e
+        subst hdu
+        have hc2 : s.k.cls = 2 := by rw [hk]; exact cls_under st '_' w (by decide)
+        have hnext := (hu.1 hc2).2
+        have hhead := isW_under_head (isW_head_nextM esc s.t m (bump 0 s.k n0) (bump 1 s.k n1) (bump 2 s.k n2) r hnext)
+        simp only [itemM, hc, if_false, MKind.src, emSrc, EmSeg.delim, List.append_assoc]
+        have hm : (if st then 2 else 1) ≤ 2 := by cases st <;> simp
+        rw [hk] at hhead hZ
+        refine noTriple_delim '_' _ ?_ (noTriple_of_no_c '_' _ _ (fun h => (wordCh_facts (hw.2 _ h)).2.1 rfl)
+          (noTriple_delim '_' _ hhead hZ _ hm)) _ hm
+        cases hwc : w with
+        | nil => exact absurd hwc hw.1
+        | cons x w' =>
+          have := (wordCh_facts (hw.2 x (by rw [hwc]; simp))).2.1
+          simpa using this
+
+theorem under_passM (cfg : Inline.Cfg) (f : Nat) (h1 : '*' ∈ cfg.esc) (h2 : '_' ∈ cfg.esc) (segs : List MSeg) :
+    ∀ (A : Str) (m n0 n1 n2 : Nat) (st : St) (g : Nat), '_' ∉ A → MSegsOK segs →
+      UnderOKM cfg.esc (isW (lastOr none A)) segs →
+      hiLoop (applyPattern cfg (fun d p s => handleInline cfg (f + 1) d p s)) (g + (nodesOf 2 segs).length)
+        (A ++ stageM cfg.esc 2 true m n0 n1 n2 segs) 15 0 st =
+      hiLoop (applyPattern cfg (fun d p s => handleInline cfg (f + 1) d p s)) g
+        (A ++ stageM cfg.esc 3 true m n0 n1 st.stash.length segs) 15 0
+        { st with stash := st.stash ++ nodesOf 2 segs } := by
+  induction segs with
+  | nil => intro A m n0 n1 n2 st g _ _ _; simp [stageM, nodesOf]
+  | cons s r ih =>
+    intro A m n0 n1 n2 st g hA hok hu
+    have hokr : MSegsOK r := fun x hx => hok x (List.mem_cons_of_mem _ hx)
+    have hs := hok s List.mem_cons_self
+    have hres : '_' ∉ resid cfg.esc m s.t := fun h => (resid_no_delim h1 h2 s.t m _ h).2 rfl
+    by_cases hc : s.k.cls < 2
+    · -- a placeholder already
+      have hc3 : s.k.cls < 3 := by omega
+      have hne2 : ¬ s.k.cls = 2 := by omega
+      generalize hn : (if s.k.cls = 0 then n0 else if s.k.cls = 1 then n1 else n2) = n
+      have hn' : (if s.k.cls = 0 then n0 else if s.k.cls = 1 then n1 else st.stash.length) = n := by
+        rw [← hn]; by_cases h0 : s.k.cls = 0
+        · simp [h0]
+        · have : s.k.cls = 1 := by omega
+          simp [this]
+      have hu' : UnderOKM cfg.esc (isW (lastOr none (A ++ (placeholder n ++ resid cfg.esc m s.t)))) r := by
+        rw [isW_lastOr_seg]; exact hu.2
+      have := ih (A ++ (placeholder n ++ resid cfg.esc m s.t)) (m + escCount cfg.esc s.t) (bump 0 s.k n0)
+        (bump 1 s.k n1) n2 st g (not_mem_of_append3 hA (not_mem_placeholder (by decide) _) hres) hokr hu'
+      simp only [stageM, itemM, nodesOf, hc, hc3, hne2, hn, hn', if_true, if_false, List.append_assoc,
+        show bump 2 s.k n2 = n2 by simp [bump, hne2],
+        show bump 2 s.k st.stash.length = st.stash.length by simp [bump, hne2]] at this ⊢
+      exact this
+    · cases hk : s.k with
+      | code n b => rw [hk, cls_code] at hc; omega
+      | em st' d w =>
+        rw [hk] at hs hc
+        obtain ⟨hd, hw, hh⟩ := hs
+        have hdu : d = '_' := by
+          rcases hd with e | e
+          · rw [e, cls_star] at hc; omega
+          · exact e
+        subst hdu
+        have hcl := cls_under st' '_' w (by decide)
+        have hc2 : s.k.cls = 2 := by rw [hk]; exact hcl
+        obtain ⟨hpw, hnext⟩ := hu.1 hc2
+        obtain ⟨q, hq⟩ := delim_cons ⟨st', '_', w, []⟩
+        have hE : emSrc ⟨st', '_', w, []⟩ = '_' :: (q ++ (w ++ EmSeg.delim ⟨st', '_', w, []⟩)) := by
+          rw [emSrc, hq]; rfl
+        have hhm := emHandle_seg ⟨st', '_', w, []⟩ (Or.inr rfl) hw A
+          (resid cfg.esc m s.t ++ stageM cfg.esc 2 true (m + escCount cfg.esc s.t) n0 n1 (n2 + 1) r)
+          (fun _ => ⟨hpw, isW_head_nextM cfg.esc s.t m n0 n1 (n2 + 1) r hnext,
+            noTriple_of_no_c '_' _ _ hres (noTriple_stage2M h1 h2 r _ _ _ _ _ hokr hu.2)⟩)
+        have hstep := applyPattern_em cfg f 15 (Or.inr rfl) '_' rfl A (emSrc ⟨st', '_', w, []⟩)
+          (resid cfg.esc m s.t ++ stageM cfg.esc 2 true (m + escCount cfg.esc s.t) n0 n1 (n2 + 1) r) hA _ hE st' w hw
+          st hhm
+        have hu' : UnderOKM cfg.esc (isW (lastOr none (A ++ (placeholder st.stash.length ++ resid cfg.esc m s.t)))) r := by
+          rw [isW_lastOr_seg]; exact hu.2
+        have := ih (A ++ (placeholder st.stash.length ++ resid cfg.esc m s.t)) (m + escCount cfg.esc s.t) n0 n1
+          (n2 + 1) { st with stash := st.stash ++ [.node (emEl st' w)] } g
+          (not_mem_of_append3 hA (not_mem_placeholder (by decide) _) hres) hokr hu'
+        simp only [stageM, itemM, bump, nodesOf, hk, hcl, if_true, List.append_assoc, Nat.lt_irrefl,
+          show (2 : Nat) < 3 by omega, show ¬ ((2 : Nat) = 0) by omega,
+          show ¬ ((2 : Nat) = 1) by omega, if_false, List.length_cons, MKind.src, MKind.node] at this ⊢
+        rw [show g + ((nodesOf 2 r).length + 1) = (g + (nodesOf 2 r).length) + 1 by omega,
+          hiLoop_step _ _ _ 15 0 st (by omega) _ _ _ _ hstep]
+        simp only [if_true]
+        rw [this]
+        simp
+
+
+/-! #### the whole pattern loop -/
+
+/-- where a character of such a line comes from, once the code spans are out -/
+def FromM (esc : List Char) (lv : Nat) (segs : List MSeg) (c : Char) : Prop :=
+  phChar c = true ∨ (∃ s ∈ segs, c ∈ s.t ∧ c ∉ esc) ∨
+    (∃ s ∈ segs, lv ≤ s.k.cls ∧ ∃ st d w, s.k = .em st d w ∧ (d = '*' ∨ d = '_') ∧ WordOK w ∧ (c = d ∨ c ∈ w))
+
+theorem FromM.cons {esc : List Char} {lv : Nat} {s : MSeg} {r : List MSeg} {c : Char} (h : FromM esc lv r c) :
+    FromM esc lv (s :: r) c := by
+  rcases h with h | ⟨x, hx, h⟩ | ⟨x, hx, h⟩
+  · exact Or.inl h
+  · exact Or.inr (Or.inl ⟨x, List.mem_cons_of_mem _ hx, h⟩)
+  · exact Or.inr (Or.inr ⟨x, List.mem_cons_of_mem _ hx, h⟩)
+
+theorem mem_stageM {esc : List Char} {c : Char} (lv : Nat) (hlv : 1 ≤ lv) (segs : List MSeg) :
+    ∀ m n0 n1 n2, MSegsOK segs → c ∈ stageM esc lv true m n0 n1 n2 segs → FromM esc lv segs c := by
+  induction segs with
+  | nil => intro m n0 n1 n2 _ h; simp [stageM] at h
+  | cons s r ih =>
+    intro m n0 n1 n2 hok h
+    simp only [stageM, if_true, List.mem_append] at h
+    rcases h with h | h | h
+    · rcases itemM_cases lv n0 n1 n2 s.k hlv (hok s List.mem_cons_self) with ⟨n, e⟩ | ⟨st, d, w, hk, e, hd, hw, _⟩
+      · rw [e] at h; exact Or.inl (phChar_of_mem_placeholder h)
+      · rw [e] at h
+        have hcl : lv ≤ s.k.cls := by
+          unfold itemM at e
+          by_cases hlt : s.k.cls < lv
+          · exfalso
+            simp only [hlt, if_true] at e
+            have h1 := noTickBs_placeholder (if s.k.cls = 0 then n0 else if s.k.cls = 1 then n1 else n2)
+            have : (emSrc ⟨st, d, w, []⟩).head? = some d := by
+              obtain ⟨q, hq⟩ := delim_cons ⟨st, d, w, []⟩
+              simp [emSrc, hq]
+            rw [← e, placeholder, phPrefix] at this
+            simp at this
+            rcases hd with e' | e' <;> rw [e'] at this <;> exact absurd this (by decide)
+          · omega
+        exact Or.inr (Or.inr ⟨s, List.mem_cons_self, hcl, st, d, w, hk, hd, hw, mem_emSrc h⟩)
+    · rcases mem_resid h with h | h
+      · exact Or.inr (Or.inl ⟨s, List.mem_cons_self, h⟩)
+      · exact Or.inl h
+    · exact (ih _ _ _ _ (fun x hx => hok x (List.mem_cons_of_mem _ hx)) h).cons
+
+theorem nodes_length (segs : List MSeg) (hok : MSegsOK segs) :
+    (nodesOf 0 segs).length + (nodesOf 1 segs).length + (nodesOf 2 segs).length = segs.length := by
+  induction segs with
+  | nil => rfl
+  | cons s r ih =>
+    have ihr := ih (fun x hx => hok x (List.mem_cons_of_mem _ hx))
+    have : s.k.cls = 0 ∨ s.k.cls = 1 ∨ s.k.cls = 2 := by
+      cases s.k with
+      | code _ _ => exact Or.inl rfl
+      | em _ d _ => simp only [MKind.cls]; split <;> simp
+    rcases this with h | h | h <;> simp [nodesOf, h] <;> omega
+
+theorem src_length_pos (k : MKind) (hk : MKindOK k) : 0 < k.src.length := by
+  cases k with
+  | code n b =>
+    obtain ⟨⟨j, hj⟩, _⟩ := hk
+    simp [MKind.src, spanSrc, ticks, hj]; omega
+  | em st d w =>
+    have := emSrc_ne_nil ⟨st, d, w, []⟩
+    cases hx : emSrc ⟨st, d, w, []⟩ with
+    | nil => exact absurd hx this
+    | cons a b => simp [MKind.src, hx]
+
+theorem rawM_length (esc : List Char) (segs : List MSeg) (hok : MSegsOK segs) :
+    escCountM esc segs + segs.length ≤ (rawM esc segs).length := by
+  induction segs with
+  | nil => simp [escCountM, rawM]
+  | cons s r ih =>
+    have h1 := escCount_le esc s.t
+    have h2 := src_length_pos s.k (hok s List.mem_cons_self)
+    have h3 := ih (fun x hx => hok x (List.mem_cons_of_mem _ hx))
+    simp only [escCountM, rawM, List.length_append, List.length_cons] at h3 ⊢
+    omega
+
+theorem stashOfM_length (esc : List Char) (segs : List MSeg) : (stashOfM esc segs).length = escCountM esc segs := by
+  induction segs with
+  | nil => rfl
+  | cons s r ih => simp [stashOfM, escCountM, escCount, ih]
+
+
+/-- **the pattern loop** on a line of escaped text, code spans and emphasised words: the code spans become
+    placeholders, then the escapes, then the `*` emphases, then the `_` emphases -/
+theorem handleInlineTop_mix (cfg : Inline.Cfg) (hE : EscOK cfg.esc) (t0 : Str) (segs : List MSeg) (st : St)
+    (hok : MSegsOK segs) (hj : junctionsOK t0 false segs) (hu : UnderOKM cfg.esc (lastW cfg.esc t0) segs)
+    (hplain : ∀ c, (c ∈ t0 ∨ ∃ s ∈ segs, c ∈ s.t) → c ≠ '&' ∧ c ≠ '\n') :
+    handleInlineTop cfg (escAll cfg.esc t0 ++ rawM cfg.esc segs) st =
+      some (resid cfg.esc (st.stash.length + (nodesOf 0 segs).length) t0 ++
+          stageM cfg.esc 3 true (st.stash.length + (nodesOf 0 segs).length + escCount cfg.esc t0) st.stash.length
+            (st.stash.length + (nodesOf 0 segs).length + escCount cfg.esc t0 + escCountM cfg.esc segs)
+            (st.stash.length + (nodesOf 0 segs).length + escCount cfg.esc t0 + escCountM cfg.esc segs +
+              (nodesOf 1 segs).length) segs,
+        { st with stash := st.stash ++ (nodesOf 0 segs ++ (stashOf cfg.esc t0 ++ stashOfM cfg.esc segs) ++
+            nodesOf 1 segs ++ nodesOf 2 segs) }) := by
+  generalize hraw : escAll cfg.esc t0 ++ rawM cfg.esc segs = raw
+  have hlen : escCount cfg.esc t0 + escCountM cfg.esc segs + segs.length ≤ raw.length := by
+    have h1 := escCount_le cfg.esc t0
+    have h2 := rawM_length cfg.esc segs hok
+    rw [← hraw, List.length_append]; omega
+  have hsu := nodes_length segs hok
+  obtain ⟨x, hx⟩ : ∃ x, loopFuel raw.length =
+      (((((((((((x + 1) + 1) + (nodesOf 2 segs).length) + 1) + (nodesOf 1 segs).length) + 1) + 11) + 1) +
+        escCountM cfg.esc segs) + escCount cfg.esc t0) + 1) + (nodesOf 0 segs).length :=
+    ⟨loopFuel raw.length - (escCount cfg.esc t0 + escCountM cfg.esc segs + segs.length + 17), by
+      have := CodeLaw.loopFuel_ge raw.length; omega⟩
+  unfold handleInlineTop depthFuel
+  rw [show raw.length + 20 = ((raw.length + 18) + 1) + 1 from rfl]
+  unfold handleInline
+  rw [hx]
+  generalize hhi : (fun d p s => handleInline cfg ((raw.length + 18) + 1) d p s) = hi
+  rw [← hraw, ← stageM_raw cfg.esc segs 0 0 0 0]
+  -- pattern 0
+  have e0 := code_pass cfg hi hE.bs hE.tick segs [] t0 false 0 0 0 0 st
+    (((((((((((x + 1) + 1) + (nodesOf 2 segs).length) + 1) + (nodesOf 1 segs).length) + 1) + 11) + 1) +
+        escCountM cfg.esc segs) + escCount cfg.esc t0) + 1) btOK_nil (by simp) hok hj
+  simp only [List.nil_append] at e0
+  rw [e0]
+  generalize hn0 : st.stash.length = n0
+  have hbt : btFind (escAll cfg.esc t0 ++ stageM cfg.esc 1 false 0 n0 0 0 segs) 0 = none := by
+    simp only [btFind, show ¬ (0 > (escAll cfg.esc t0 ++ stageM cfg.esc 1 false 0 n0 0 0 segs).length) by omega,
+      if_false, if_true, List.drop_zero]
+    have := btScan_stage1 hE.bs hE.tick segs [] t0 0 n0 0 0 none 0 btOK_nil (by simp) hok
+    simpa using this
+  rw [hiLoop_step _ _ _ 0 0 _ (by omega) _ _ _ _ (applyPattern_zero_none cfg _ _ _ hbt)]
+  simp only [Bool.false_eq_true, if_false, Nat.zero_add]
+  -- pattern 1
+  have e1 := escape_chunk cfg hi hE.bs (stageM cfg.esc 1 false 0 n0 0 0 segs) t0 []
+    { st with stash := st.stash ++ nodesOf 0 segs }
+    (((((((((x + 1) + 1) + (nodesOf 2 segs).length) + 1) + (nodesOf 1 segs).length) + 1) + 11) + 1) +
+        escCountM cfg.esc segs) (by simp)
+  simp only [List.nil_append] at e1
+  rw [e1]
+  simp only [List.length_append, hn0]
+  generalize hne : n0 + (nodesOf 0 segs).length = ne
+  have hbs0 : '\\' ∉ resid cfg.esc ne t0 := bs_not_mem_resid hE.bs _ _
+  rw [esc_passM cfg hi hE.bs 1 (by omega) segs _ _ _ _ _ _ _ hbs0 hok]
+  simp only [List.length_append, hn0, hne]
+  have hlen0 : (stashOf cfg.esc t0).length = escCount cfg.esc t0 := rfl
+  rw [hlen0]
+  generalize hm1 : ne + escCount cfg.esc t0 = m1
+  generalize hD1 : resid cfg.esc ne t0 ++ stageM cfg.esc 1 true m1 n0 0 0 segs = D1
+  have hchars : ∀ (lv : Nat), 1 ≤ lv → ∀ (a b c : Nat) (ch : Char),
+      ch ∈ resid cfg.esc ne t0 ++ stageM cfg.esc lv true m1 a b c segs →
+      (ch ∈ t0 ∧ ch ∉ cfg.esc) ∨ FromM cfg.esc lv segs ch := by
+    intro lv hlv a b c ch hc
+    rcases List.mem_append.1 hc with h | h
+    · rcases mem_resid h with h | h
+      · exact Or.inl h
+      · exact Or.inr (Or.inl h)
+    · exact Or.inr (mem_stageM lv hlv segs _ _ _ _ hok h)
+  have hfacts : ∀ (lv : Nat), 1 ≤ lv → ∀ (a b c : Nat) (ch : Char),
+      ch ∈ resid cfg.esc ne t0 ++ stageM cfg.esc lv true m1 a b c segs →
+      ch ≠ '\\' ∧ ch ≠ '[' ∧ ch ≠ '!' ∧ ch ≠ '&' ∧ ch ≠ '\n' ∧ (ch = '*' → lv ≤ 1) ∧ (ch = '_' → lv ≤ 2) := by
+    intro lv hlv a b c ch hc
+    rcases hchars lv hlv a b c ch hc with ⟨h, hn⟩ | h | ⟨s, hs, h, hn⟩ | ⟨s, hs, hcl, st', d, w, hk, hd, hw, h⟩
+    · have := hplain ch (Or.inl h)
+      exact ⟨fun e => hn (e ▸ hE.bs), fun e => hn (e ▸ hE.lbr), fun e => hn (e ▸ hE.bang), this.1, this.2,
+        fun e => absurd (e ▸ hE.star) hn, fun e => absurd (e ▸ hE.under) hn⟩
+    · have := phChar_facts h
+      exact ⟨this.2.2.2.2.2.1, this.1, this.2.1, this.2.2.1, this.2.2.2.2.2.2.2, fun e => absurd e this.2.2.2.1,
+        fun e => absurd e this.2.2.2.2.1⟩
+    · have := hplain ch (Or.inr ⟨s, hs, h⟩)
+      exact ⟨fun e => hn (e ▸ hE.bs), fun e => hn (e ▸ hE.lbr), fun e => hn (e ▸ hE.bang), this.1, this.2,
+        fun e => absurd (e ▸ hE.star) hn, fun e => absurd (e ▸ hE.under) hn⟩
+    · rcases h with h | h
+      · subst h
+        have hcls : s.k.cls = if ch = '*' then 1 else 2 := by rw [hk]; rfl
+        rcases hd with e | e <;> subst e
+        · refine ⟨by decide, by decide, by decide, by decide, by decide, fun _ => ?_, fun e => absurd e (by decide)⟩
+          simp at hcls; omega
+        · refine ⟨by decide, by decide, by decide, by decide, by decide, fun e => absurd e (by decide), fun _ => ?_⟩
+          simp at hcls; omega
+      · have := wordCh_facts (hw.2 _ h)
+        exact ⟨this.2.2.2.1, this.2.2.2.2.1, this.2.2.2.2.2.1, this.2.2.2.2.2.2.1, this.2.2.2.2.2.2.2.1,
+          fun e => absurd e this.1, fun e => absurd e this.2.1⟩
+  have hbs1 : '\\' ∉ D1 := by
+    intro h; rw [← hD1] at h; exact (hfacts 1 (by omega) _ _ _ _ h).1 rfl
+  rw [hiLoop_step _ _ _ 1 0 _ (by omega) _ _ _ _ (applyPattern_esc_none cfg hi D1 _ hbs1)]
+  simp only [Bool.false_eq_true, if_false]
+  -- patterns 2–12
+  have hmid : Mid D1 := by
+    intro c hc
+    rw [← hD1] at hc
+    have := hfacts 1 (by omega) _ _ _ _ hc
+    exact ⟨this.2.1, this.2.2.1, this.2.2.2.1, this.2.2.2.2.1⟩
+  rw [show 1 + 1 = 2 from rfl, hiLoop_mid cfg hi D1 _ hmid _ 11 2 rfl (by omega)]
+  -- pattern 13
+  have hns : nsFind D1 0 = none := by
+    rw [← hD1]
+    simp only [nsFind, show ¬ (0 > (resid cfg.esc ne t0 ++ stageM cfg.esc 1 true m1 n0 0 0 segs).length) by omega,
+      if_false, if_true, List.drop_zero]
+    rw [nsScan_text _ (resid_no_delim hE.star hE.under t0 ne)]
+    exact nsScan_stageM hE.star hE.under 1 (by omega) segs _ _ _ _ _ _ hok
+  rw [hiLoop_step _ _ _ 13 0 _ (by omega) _ _ _ _ (applyPattern_13 cfg hi D1 _ hns)]
+  simp only [Bool.false_eq_true, if_false]
+  -- pattern 14
+  have hs0 : '*' ∉ resid cfg.esc ne t0 := fun h => (resid_no_delim hE.star hE.under t0 ne _ h).1 rfl
+  rw [show 13 + 1 = 14 from rfl, ← hD1, ← hhi, star_passM cfg (raw.length + 18) hE.star hE.under segs _ _ _ _ _ _ _ hs0 hok]
+  rw [hhi]
+  simp only [List.length_append, hlen0, stashOfM_length, hn0, hne, hm1]
+  generalize hn1 : m1 + escCountM cfg.esc segs = n1
+  have hn1' : ne + (escCount cfg.esc t0 + escCountM cfg.esc segs) = n1 := by omega
+  try simp only [hn1']
+  have hstar2 : '*' ∉ resid cfg.esc ne t0 ++ stageM cfg.esc 2 true m1 n0 n1 0 segs := by
+    intro h
+    have := (hfacts 2 (by omega) _ _ _ _ h).2.2.2.2.2.1 rfl
+    omega
+  rw [hiLoop_step _ _ _ 14 0 _ (by omega) _ _ _ _
+    (applyPattern_em_none cfg hi 14 (Or.inl rfl) _ _ (by simpa using hstar2))]
+  simp only [Bool.false_eq_true, if_false]
+  -- pattern 15
+  have hu0 : '_' ∉ resid cfg.esc ne t0 := fun h => (resid_no_delim hE.star hE.under t0 ne _ h).2 rfl
+  have hpw : isW (lastOr none (resid cfg.esc ne t0)) = lastW cfg.esc t0 := by
+    rw [isW_lastOr_resid]
+    by_cases ht : t0 = []
+    · subst ht; rfl
+    · simp [ht]
+  rw [show 14 + 1 = 15 from rfl, ← hhi,
+    under_passM cfg (raw.length + 18) hE.star hE.under segs _ _ _ _ _ _ _ hu0 hok (by rw [hpw]; exact hu)]
+  rw [hhi]
+  simp only [List.length_append, hlen0, stashOfM_length, hn0, hne, hm1]
+  have hund3 : ∀ n2, '_' ∉ resid cfg.esc ne t0 ++ stageM cfg.esc 3 true m1 n0 n1 n2 segs := by
+    intro n2 h
+    have := (hfacts 3 (by omega) _ _ _ _ h).2.2.2.2.2.2 rfl
+    omega
+  rw [hiLoop_step _ _ _ 15 0 _ (by omega) _ _ _ _
+    (applyPattern_em_none cfg hi 15 (Or.inr rfl) _ _ (by simpa using hund3 _))]
+  simp only [Bool.false_eq_true, if_false]
+  simp only [hiLoop, patternCount, show ¬ (15 + 1 < 16) by omega, if_false]
+  simp [List.append_assoc, hn1]
+
+
+/-! ### 26. `__processPlaceholders` on the residue of a mixed line -/
+
+theorem cls_lt3 (k : MKind) : k.cls < 3 := by
+  cases k with
+  | code _ _ => simp [MKind.cls]
+  | em _ d _ => simp only [MKind.cls]; split <;> omega
+
+/-- the index of the placeholder of an item -/
+def idxM (n0 n1 n2 : Nat) (k : MKind) : Nat := if k.cls = 0 then n0 else if k.cls = 1 then n1 else n2
+
+theorem itemM3 (n0 n1 n2 : Nat) (k : MKind) : itemM 3 n0 n1 n2 k = placeholder (idxM n0 n1 n2 k) := by
+  simp [itemM, cls_lt3, idxM]
+
+/-- the stash entries of the items are where the placeholders say -/
+def MStash (S : List StashItem) : Nat → Nat → Nat → List MSeg → Prop
+  | _, _, _, [] => True
+  | n0, n1, n2, s :: r => S[idxM n0 n1 n2 s.k]? = some (.node s.k.node) ∧
+      MStash S (bump 0 s.k n0) (bump 1 s.k n1) (bump 2 s.k n2) r
+
+/-- the state of the loop after the items: each becomes a node, the text after it its tail -/
+def foldM (esc : List Char) : List MSeg → List Node × Node → List Node × Node
+  | [], rp => rp
+  | s :: r, rp => foldM esc r (lt (coded esc s.t) (s.k.node :: rp.1, rp.2))
+
+def costM (esc : List Char) : Str → List MSeg → Nat
+  | t, [] => escCount esc t + 1
+  | t, s :: r => escCount esc t + 1 + costM esc s.t r
+
+theorem ppLoop_mix (esc : List Char) (S : List StashItem) (nested : Node → Option Node) (segs : List MSeg) :
+    ∀ (P t : Str) (m n0 n1 n2 : Nat) (rp : List Node × Node) (g : Nat) (rest : List StashItem), STX ∉ t →
+      (∀ s ∈ segs, STX ∉ s.t ∧ nested s.k.node = some s.k.node) →
+      S.drop m = stashOf esc t ++ stashOfM esc segs ++ rest → MStash S n0 n1 n2 segs →
+      ppLoop S nested (P ++ resid esc m t ++ stageM esc 3 true (m + escCount esc t) n0 n1 n2 segs) false true
+        (g + costM esc t segs) P.length rp.1 rp.2 =
+        some ((foldM esc segs (lt (coded esc t) rp)).1.reverse, (foldM esc segs (lt (coded esc t) rp)).2) := by
+  induction segs with
+  | nil =>
+    intro P t m n0 n1 n2 rp g rest ht _ hS _
+    have := ppLoop_seg esc S nested [] (g + 1) _ (nextOK_end S nested g) t P [] m rp (stashOfM esc [] ++ rest)
+      (by simp) ht (by simpa [List.append_assoc] using hS)
+    simp only [List.append_nil, List.nil_append] at this
+    simp only [stageM, List.append_nil, costM, foldM]
+    rw [show g + (escCount esc t + 1) = g + 1 + escCount esc t by omega, this]
+  | cons s r ih =>
+    intro P t m n0 n1 n2 rp g rest ht hsegs hS hst
+    obtain ⟨hs1, hs2⟩ := hsegs s List.mem_cons_self
+    have hK := nextOK_node S nested (g + costM esc s.t r) (idxM n0 n1 n2 s.k)
+      (resid esc (m + escCount esc t) s.t ++ stageM esc 3 true (m + escCount esc t + escCount esc s.t)
+        (bump 0 s.k n0) (bump 1 s.k n1) (bump 2 s.k n2) r)
+      s.k.node hst.1 hs2
+    have := ppLoop_seg esc S nested _ _ _ hK t P [] m rp (stashOfM esc (s :: r) ++ rest)
+      (by simp) ht (by simpa [List.append_assoc] using hS)
+    simp only [List.append_nil, List.nil_append] at this
+    simp only [stageM, itemM3, costM, foldM, if_true]
+    rw [show g + (escCount esc t + 1 + costM esc s.t r) = g + costM esc s.t r + 1 + escCount esc t by omega,
+      this]
+    have hS' : S.drop (m + escCount esc t) = stashOf esc s.t ++ stashOfM esc r ++ rest := by
+      have : S.drop (m + escCount esc t) = (S.drop m).drop (escCount esc t) := by rw [List.drop_drop]
+      rw [this, hS]
+      simp [escCount, stashOfM, List.append_assoc]
+    have := ih (P ++ resid esc m t ++ placeholder (idxM n0 n1 n2 s.k)) s.t (m + escCount esc t)
+      (bump 0 s.k n0) (bump 1 s.k n1) (bump 2 s.k n2)
+      (s.k.node :: (lt (coded esc t) rp).1, (lt (coded esc t) rp).2) g rest hs1
+      (fun x hx => hsegs x (List.mem_cons_of_mem _ hx)) hS' hst.2
+    simp only [List.append_assoc] at this ⊢
+    exact this
+
+/-- an item's element with the text that follows it as its tail -/
+def tailedM (esc : List Char) (s : MSeg) : Node := { s.k.node with tail := optStr (coded esc s.t) }
+
+theorem lt_knode (x : Str) (k : MKind) (res : List Node) (par : Node) :
+    lt x (k.node :: res, par) = ({ k.node with tail := optStr x } :: res, par) := by
+  cases k with
+  | code n b => exact lt_code x _ res par
+  | em st d w => exact lt_emEl x st w res par
+
+theorem foldM_closed (esc : List Char) (segs : List MSeg) :
+    ∀ (res : List Node) (par : Node), foldM esc segs (res, par) = ((segs.map (tailedM esc)).reverse ++ res, par) := by
+  induction segs with
+  | nil => intro res par; rfl
+  | cons s r ih =>
+    intro res par
+    simp only [foldM, lt_knode, ih, List.map_cons, List.reverse_cons, List.append_assoc, List.singleton_append,
+      tailedM]
+
+theorem costM_le (esc : List Char) (segs : List MSeg) :
+    ∀ (t : Str) (m n0 n1 n2 : Nat),
+      costM esc t segs ≤ (resid esc m t ++ stageM esc 3 true (m + escCount esc t) n0 n1 n2 segs).length + 1 := by
+  induction segs with
+  | nil =>
+    intro t m n0 n1 n2
+    have := escCount_le_resid esc t m
+    simp only [costM, stageM, List.append_nil]; omega
+  | cons s r ih =>
+    intro t m n0 n1 n2
+    have h1 := escCount_le_resid esc t m
+    have h2 := ih s.t (m + escCount esc t) (bump 0 s.k n0) (bump 1 s.k n1) (bump 2 s.k n2)
+    have h3 := placeholder_length_pos (idxM n0 n1 n2 s.k)
+    simp only [costM, stageM, itemM3, if_true, List.length_append] at h2 ⊢
+    omega
+
+theorem mStash_nodes (segs : List MSeg) :
+    ∀ (B C D : List StashItem), MStash (B ++ nodesOf 0 segs ++ C ++ nodesOf 1 segs ++ D ++ nodesOf 2 segs)
+      B.length (B.length + (nodesOf 0 segs).length + C.length)
+      (B.length + (nodesOf 0 segs).length + C.length + (nodesOf 1 segs).length + D.length) segs := by
+  induction segs with
+  | nil => intro B C D; trivial
+  | cons s r ih =>
+    intro B C D
+    have hcl : s.k.cls = 0 ∨ s.k.cls = 1 ∨ s.k.cls = 2 := by have := cls_lt3 s.k; omega
+    rcases hcl with h | h | h
+    · simp only [MStash, idxM, bump, nodesOf, h, if_true, show ¬ ((0 : Nat) = 1) by omega,
+        show ¬ ((0 : Nat) = 2) by omega, if_false]
+      refine ⟨by simp, ?_⟩
+      have := ih (B ++ [.node s.k.node]) C D
+      simp only [List.length_append, List.length_cons, List.length_nil, List.append_assoc,
+        List.cons_append, List.nil_append] at this ⊢
+      rw [show B.length + ((nodesOf 0 r).length + 1) + C.length = B.length + (0 + 1) + (nodesOf 0 r).length + C.length
+        by omega]
+      exact this
+    · simp only [MStash, idxM, bump, nodesOf, h, if_true, show ¬ ((1 : Nat) = 0) by omega,
+        show ¬ ((1 : Nat) = 2) by omega, if_false]
+      refine ⟨?_, ?_⟩
+      · have hi : B.length + (nodesOf 0 r).length + C.length = (B ++ nodesOf 0 r ++ C).length := by
+          simp [Nat.add_assoc]
+        have hl : B ++ nodesOf 0 r ++ C ++ (StashItem.node s.k.node :: nodesOf 1 r) ++ D ++ nodesOf 2 r =
+            (B ++ nodesOf 0 r ++ C) ++ (StashItem.node s.k.node :: (nodesOf 1 r ++ D ++ nodesOf 2 r)) := by
+          simp [List.append_assoc]
+        rw [hi, hl, List.getElem?_append_right (Nat.le_refl _)]
+        simp
+      · have := ih B (C ++ [.node s.k.node]) D
+        simp only [List.length_append, List.length_cons, List.length_nil, List.append_assoc,
+          List.cons_append, List.nil_append] at this ⊢
+        rw [show B.length + (nodesOf 0 r).length + C.length + ((nodesOf 1 r).length + 1) + D.length =
+          B.length + (nodesOf 0 r).length + (C.length + (0 + 1)) + (nodesOf 1 r).length + D.length by omega,
+          show B.length + (nodesOf 0 r).length + C.length + 1 = B.length + (nodesOf 0 r).length + (C.length + (0 + 1))
+          by omega]
+        exact this
+    · simp only [MStash, idxM, bump, nodesOf, h, if_true, show ¬ ((2 : Nat) = 0) by omega,
+        show ¬ ((2 : Nat) = 1) by omega, if_false]
+      refine ⟨?_, ?_⟩
+      · have : B.length + (nodesOf 0 r).length + C.length + (nodesOf 1 r).length + D.length =
+            (B ++ nodesOf 0 r ++ C ++ nodesOf 1 r ++ D).length := by simp [Nat.add_assoc]
+        rw [this, List.getElem?_append_right (Nat.le_refl _)]
+        simp
+      · have := ih B C (D ++ [.node s.k.node])
+        simp only [List.length_append, List.length_cons, List.length_nil, List.append_assoc,
+          List.cons_append, List.nil_append] at this ⊢
+        rw [show B.length + (nodesOf 0 r).length + C.length + (nodesOf 1 r).length + D.length + 1 =
+          B.length + (nodesOf 0 r).length + C.length + (nodesOf 1 r).length + (D.length + (0 + 1)) by omega]
+        exact this
+
+
+/-- no STX in what the item's element shows -/
+def MKind.clean : MKind → Prop
+  | .code _ b => STX ∉ Code.codeEscape b
+  | .em _ _ w => STX ∉ w
+
+theorem procNode_knode (S : List StashItem) (f' : Nat) (hf : 0 < f') (k : MKind) (hk : k.clean) :
+    procNode (fun d a p i => processPlaceholders S f' d a p i) k.node = some k.node := by
+  cases k with
+  | code n b => exact procNode_codeSpan S f' hf _ hk
+  | em st d w => exact procNode_emEl S f' hf st w hk
+
+/-- **`__processPlaceholders`** on the residue of a line of escaped text, code spans and emphasised words -/
+theorem ppTop_mix (esc : List Char) (S0 : List StashItem) (html : List Str)
+    (t0 : Str) (segs : List MSeg) (parent : Node) (hp1 : parent.text = none) (hp2 : parent.textAtomic = false)
+    (ht0 : STX ∉ t0) (hsegs : ∀ s ∈ segs, STX ∉ s.t ∧ s.k.clean) (hne : t0 ≠ [] ∨ segs ≠ []) :
+    ppTop { stash := S0 ++ (nodesOf 0 segs ++ (stashOf esc t0 ++ stashOfM esc segs) ++ nodesOf 1 segs ++
+              nodesOf 2 segs), html := html }
+        (resid esc (S0.length + (nodesOf 0 segs).length) t0 ++
+          stageM esc 3 true (S0.length + (nodesOf 0 segs).length + escCount esc t0) S0.length
+            (S0.length + (nodesOf 0 segs).length + escCount esc t0 + escCountM esc segs)
+            (S0.length + (nodesOf 0 segs).length + escCount esc t0 + escCountM esc segs + (nodesOf 1 segs).length)
+            segs) false parent true =
+      some (segs.map (tailedM esc), { parent with text := optStr (coded esc t0) }) := by
+  generalize hS : S0 ++ (nodesOf 0 segs ++ (stashOf esc t0 ++ stashOfM esc segs) ++ nodesOf 1 segs ++
+      nodesOf 2 segs) = S
+  have hdrop : S.drop (S0.length + (nodesOf 0 segs).length) =
+      stashOf esc t0 ++ stashOfM esc segs ++ (nodesOf 1 segs ++ nodesOf 2 segs) := by
+    rw [← hS]
+    have : S0 ++ (nodesOf 0 segs ++ (stashOf esc t0 ++ stashOfM esc segs) ++ nodesOf 1 segs ++ nodesOf 2 segs) =
+        (S0 ++ nodesOf 0 segs) ++ (stashOf esc t0 ++ stashOfM esc segs ++ (nodesOf 1 segs ++ nodesOf 2 segs)) := by
+      simp [List.append_assoc]
+    rw [this, ← List.length_append, List.drop_left]
+  have hst : MStash S S0.length (S0.length + (nodesOf 0 segs).length + escCount esc t0 + escCountM esc segs)
+      (S0.length + (nodesOf 0 segs).length + escCount esc t0 + escCountM esc segs + (nodesOf 1 segs).length) segs := by
+    have := mStash_nodes segs S0 (stashOf esc t0 ++ stashOfM esc segs) []
+    simp only [List.length_append, List.length_nil, Nat.add_zero, List.append_nil, stashOfM_length] at this
+    rw [← hS]
+    have e : (stashOf esc t0).length = escCount esc t0 := rfl
+    rw [e] at this
+    simpa [List.append_assoc, Nat.add_assoc] using this
+  generalize hRR : resid esc (S0.length + (nodesOf 0 segs).length) t0 ++
+          stageM esc 3 true (S0.length + (nodesOf 0 segs).length + escCount esc t0) S0.length
+            (S0.length + (nodesOf 0 segs).length + escCount esc t0 + escCountM esc segs)
+            (S0.length + (nodesOf 0 segs).length + escCount esc t0 + escCountM esc segs + (nodesOf 1 segs).length)
+            segs = R
+  have hRne : R.isEmpty = false := by
+    rw [← hRR]
+    rcases hne with h | h
+    · cases t0 with
+      | nil => exact absurd rfl h
+      | cons c r =>
+        by_cases hc : c ∈ esc
+        · simp only [resid, List.contains_eq_mem, hc, decide_true, if_true]
+          cases hx : placeholder (S0.length + (nodesOf 0 segs).length) with
+          | nil => exact absurd hx (placeholder_ne_nil _)
+          | cons a b => simp
+        · simp [resid, hc]
+    · cases segs with
+      | nil => exact absurd rfl h
+      | cons s r =>
+        simp only [stageM, itemM3]
+        generalize idxM _ _ _ s.k = k
+        cases hx : placeholder k with
+        | nil => exact absurd hx (placeholder_ne_nil _)
+        | cons a b => cases resid esc (S0.length + (nodesOf 0 (s :: r)).length) t0 <;> simp
+  simp only [ppTop]
+  rw [show S.length + 2 = (S.length + 1) + 1 from rfl]
+  unfold processPlaceholders
+  simp only [hRne, Bool.false_eq_true, if_false]
+  have hcost := costM_le esc segs t0 (S0.length + (nodesOf 0 segs).length) S0.length
+    (S0.length + (nodesOf 0 segs).length + escCount esc t0 + escCountM esc segs)
+    (S0.length + (nodesOf 0 segs).length + escCount esc t0 + escCountM esc segs + (nodesOf 1 segs).length)
+  rw [hRR] at hcost
+  obtain ⟨g, hg⟩ : ∃ g, R.length + 2 = g + costM esc t0 segs := ⟨R.length + 2 - costM esc t0 segs, by omega⟩
+  rw [hg]
+  have := ppLoop_mix esc S
+    (procNode fun d a p t_1 => processPlaceholders S (S.length + 1) d a p t_1)
+    segs [] t0 (S0.length + (nodesOf 0 segs).length) _ _ _ ([], parent) g _ ht0
+    (fun s hs => ⟨(hsegs s hs).1, procNode_knode S (S.length + 1) (by omega) s.k (hsegs s hs).2⟩) hdrop hst
+  simp only [List.nil_append, List.length_nil] at this
+  rw [hRR] at this
+  rw [this]
+  have hlt : lt (coded esc t0) ([], parent) = ([], { parent with text := optStr (coded esc t0) }) := by
+    simp only [lt]; exact CodeLaw.linkText_text _ parent hp1 hp2
+  rw [hlt, foldM_closed]
+  simp
+
+/-! ### 27. a text element with code spans and emphasis through the stages -/
+
+def mixTxtSrc (esc : List Char) (tag : Str) (t0 : Str) (segs : List MSeg) : Node :=
+  { tag := .name tag, text := some (escAll esc t0 ++ rawM esc segs) }
+
+def mixTxtMid (esc : List Char) (tag : Str) (t0 : Str) (segs : List MSeg) : Node :=
+  { tag := .name tag, text := optStr (coded esc t0), children := segs.map (tailedM esc) }
+
+theorem rawM_ne_nil (esc : List Char) (segs : List MSeg) (hok : MSegsOK segs) (hne : segs ≠ []) :
+    rawM esc segs ≠ [] := by
+  cases segs with
+  | nil => exact absurd rfl hne
+  | cons s r =>
+    have := src_length_pos s.k (hok s List.mem_cons_self)
+    intro e
+    have h2 : s.k.src = [] := (List.append_eq_nil_iff.1 e).1
+    rw [h2] at this; simp at this
+
+theorem visitChild_mixTxt (cfg : Inline.Cfg) (hE : EscOK cfg.esc) (tag t0 : Str) (segs : List MSeg)
+    (hok : MSegsOK segs) (hj : junctionsOK t0 false segs) (hu : UnderOKM cfg.esc (lastW cfg.esc t0) segs)
+    (hplain : ∀ c, (c ∈ t0 ∨ ∃ s ∈ segs, c ∈ s.t) → c ≠ '&' ∧ c ≠ '\n' ∧ c ≠ STX)
+    (hclean : ∀ s ∈ segs, s.k.clean) (hne : t0 ≠ [] ∨ segs ≠ []) (v : Visit) :
+    visitChild cfg (mixTxtSrc cfg.esc tag t0 segs) v =
+      some (mixTxtMid cfg.esc tag t0 segs, [],
+        { v with pushes := ((List.range segs.length).map (fun k => [v.done.length, k])).reverse ++ v.pushes,
+                 st := { v.st with stash := v.st.stash ++ (nodesOf 0 segs ++ (stashOf cfg.esc t0 ++
+                   stashOfM cfg.esc segs) ++ nodesOf 1 segs ++ nodesOf 2 segs) } }) := by
+  have hraw : escAll cfg.esc t0 ++ rawM cfg.esc segs ≠ [] := by
+    rcases hne with h | h
+    · have := escAll_ne_nil (esc := cfg.esc) h
+      cases hx : escAll cfg.esc t0 with
+      | nil => exact absurd hx this
+      | cons a b => simp
+    · intro e
+      exact rawM_ne_nil cfg.esc segs hok h (List.append_eq_nil_iff.1 e).2
+  have h1 := handleInlineTop_mix cfg hE t0 segs v.st hok hj hu (fun c hc => ⟨(hplain c hc).1, (hplain c hc).2.1⟩)
+  have h2 := ppTop_mix cfg.esc v.st.stash v.st.html t0 segs
+    { tag := .name tag } rfl rfl (fun h => (hplain _ (Or.inl h)).2.2 rfl)
+    (fun s hs => ⟨fun h => (hplain _ (Or.inr ⟨s, hs, h⟩)).2.2 rfl, hclean s hs⟩) hne
+  simp only [mixTxtSrc, visitChild, truthy_some hraw, Bool.not_false, Bool.and_self, if_true, Option.getD_some, h1]
+  rw [h2]
+  simp [mixTxtMid, Node.truthy]
+
+
+theorem tailedM_code (esc : List Char) (n : Nat) (b t : Str) : tailedM esc ⟨.code n b, t⟩ = tailed esc ⟨n, b, t⟩ := rfl
+theorem tailedM_em (esc : List Char) (st : Bool) (d : Char) (w t : Str) :
+    tailedM esc ⟨.em st d w, t⟩ = tailedEm esc ⟨st, d, w, t⟩ := rfl
+
+theorem bl_tailedM (esc : List Char) (s : MSeg) :
+    TreeProc.isBlockLevel TreeProc.defaultBlockLevel (tailedM esc s).tag = false := by
+  obtain ⟨k, t⟩ := s
+  cases k with
+  | code n b => exact bl_code'
+  | em st d w => rw [tailedM_em, tailedEm_tag]; exact bl_em _
+
+theorem prettifyKids_tailedM (esc : List Char) (segs : List MSeg) :
+    TreeProc.prettifyKids TreeProc.defaultBlockLevel (segs.map (tailedM esc)) = segs.map (tailedM esc) := by
+  induction segs with
+  | nil => rfl
+  | cons s r ih =>
+    simp only [List.map_cons, TreeProc.prettifyKids, bl_tailedM esc s, Bool.false_eq_true, if_false, ih]
+
+theorem mapKids_tailedM (esc : List Char) (segs : List MSeg) :
+    TreeProc.mapKids TreeProc.preRule (TreeProc.mapKids TreeProc.brRule (segs.map (tailedM esc))) =
+      segs.map (tailedM esc) := by
+  induction segs with
+  | nil => rfl
+  | cons s r ih =>
+    obtain ⟨k, t⟩ := s
+    cases k with
+    | code n b =>
+      have := mapKids_tailed esc [⟨n, b, t⟩]
+      simp only [List.map_cons, List.map_nil, TreeProc.mapKids, List.cons.injEq, and_true] at this
+      simp only [List.map_cons, TreeProc.mapKids, ih, tailedM_code, this]
+    | em st d w =>
+      have := mapKids_tailedEm esc [⟨st, d, w, t⟩]
+      simp only [List.map_cons, List.map_nil, TreeProc.mapKids, List.cons.injEq, and_true] at this
+      simp only [List.map_cons, TreeProc.mapKids, ih, tailedM_em, this]
+
+def mixTxtPretty (esc : List Char) (tag : Str) (t0 : Str) (segs : List MSeg) : Node :=
+  { tag := .name tag, text := optStr (coded esc t0), children := segs.map (tailedM esc), tail := some ['\n'] }
+
+theorem pretty_mixTxt (esc : List Char) (tag : Str) (htag : textTags.contains tag = true) (t0 : Str)
+    (segs : List MSeg) :
+    TreeProc.mapTree TreeProc.preRule (TreeProc.mapTree TreeProc.brRule
+      (TreeProc.prettifyETree TreeProc.defaultBlockLevel (mixTxtMid esc tag t0 segs))) =
+      mixTxtPretty esc tag t0 segs := by
+  have hf := tagFacts tag (List.mem_cons_of_mem _ (List.contains_iff_mem.1 htag))
+  have hbr : (Tag.name tag == Tag.name "br".toList) = false := by simpa using hf.2.2.2.1
+  have hpre : (Tag.name tag == Tag.name "pre".toList) = false := by simpa using hf.2.2.1
+  have hcode : (Tag.name tag == Tag.name "code".toList) = false := by simpa using hf.2.1
+  have h1 : TreeProc.prettifyETree TreeProc.defaultBlockLevel (mixTxtMid esc tag t0 segs) =
+      mixTxtPretty esc tag t0 segs := by
+    cases segs with
+    | nil => simp [mixTxtMid, mixTxtPretty, TreeProc.prettifyETree, TreeProc.prettifyKids, TreeProc.blankOrNone,
+        Node.truthy]
+    | cons s r =>
+      have hk := prettifyKids_tailedM esc (s :: r)
+      simp only [List.map_cons] at hk
+      have hb := bl_tailedM esc s
+      simp only [mixTxtMid, mixTxtPretty, TreeProc.prettifyETree, List.map_cons, hb, hk, Bool.and_false,
+        Bool.false_eq_true, if_false, hf.1, hcode, hpre, Bool.not_false, Bool.and_self, if_true,
+        TreeProc.blankOrNone, Node.truthy, Bool.true_or]
+  rw [h1]
+  simp only [mixTxtPretty, TreeProc.mapTree, TreeProc.brRule, TreeProc.preRule, TreeProc.tagIs, hbr, hpre,
+    Bool.false_eq_true, if_false, mapKids_tailedM]
+
+/-- an item's element with the plain text that follows it (after unescape) as its tail -/
+def tailedFinM (s : MSeg) : Node := { s.k.node with tail := optStr s.t }
+
+def mixTxtFin (tag : Str) (t0 : Str) (segs : List MSeg) : Node :=
+  { tag := .name tag, text := optStr t0, children := segs.map tailedFinM, tail := some ['\n'] }
+
+/-- what the later stages need of an item: no STX; words not empty -/
+def MKind.fine : MKind → Prop
+  | .code _ _ => True
+  | .em _ _ w => Inline.STX ∉ w ∧ w ≠ []
+
+theorem unescapeTree_tailedM (esc : List Char) (s : MSeg) (hs : Inline.STX ∉ s.t) (hk : s.k.fine) :
+    TreeProc.unescapeTree (tailedM esc s) = some (tailedFinM s) := by
+  obtain ⟨k, t⟩ := s
+  cases k with
+  | code n b => exact unescapeTree_tailed esc ⟨n, b, t⟩ hs
+  | em st d w => exact unescapeTree_tailedEm esc ⟨st, d, w, t⟩ hs hk.1 hk.2
+
+theorem unescapeKids_tailedM (esc : List Char) (segs : List MSeg)
+    (hs : ∀ s ∈ segs, Inline.STX ∉ s.t ∧ s.k.fine) :
+    TreeProc.unescapeKids (segs.map (tailedM esc)) = some (segs.map tailedFinM) := by
+  induction segs with
+  | nil => rfl
+  | cons s r ih =>
+    obtain ⟨h1, h2⟩ := hs s List.mem_cons_self
+    simp only [List.map_cons, TreeProc.unescapeKids, unescapeTree_tailedM esc s h1 h2,
+      ih (fun x hx => hs x (List.mem_cons_of_mem _ hx))]
+
+theorem unesc_mixTxt (esc : List Char) (tag : Str) (htag : textTags.contains tag = true) (t0 : Str)
+    (segs : List MSeg) (h0 : Inline.STX ∉ t0) (hs : ∀ s ∈ segs, Inline.STX ∉ s.t ∧ s.k.fine) :
+    TreeProc.unescapeTree (mixTxtPretty esc tag t0 segs) = some (mixTxtFin tag t0 segs) := by
+  have hf := tagFacts tag (List.mem_cons_of_mem _ (List.contains_iff_mem.1 htag))
+  have hcode : (Tag.name tag == Tag.name "code".toList) = false := by simpa using hf.2.1
+  have hnl : TreeProc.unescapeText 0 ['\n'] = some ['\n'] := by decide
+  have h := unescOpt_coded esc t0 h0
+  have t1 : Node.truthy (some ['\n']) = true := rfl
+  simp only [mixTxtPretty, mixTxtFin, TreeProc.unescapeTree, hcode, Bool.not_false, Bool.and_true, h,
+    unescapeKids_tailedM esc segs hs, TreeProc.unescAttrs, t1, if_true, Option.getD_some, hnl, Option.map_some]
+  by_cases ht : Node.truthy (optStr (coded esc t0)) = true <;> simp [ht]
+
+/-- the serialised element of an item -/
+def MKind.out : MKind → Str
+  | .code _ b => "<code>".toList ++ Ser.escCdata (Code.codeEscape b) ++ "</code>".toList
+  | .em st _ w => '<' :: emTagS st ++ ['>'] ++ Ser.escCdata w ++ ('<' :: '/' :: emTagS st ++ ['>'])
+
+def outM : List MSeg → Str
+  | [] => []
+  | s :: r => s.k.out ++ Ser.escCdata s.t ++ outM r
+
+theorem outM_cons (s : MSeg) (r : List MSeg) : outM (s :: r) = s.k.out ++ Ser.escCdata s.t ++ outM r := rfl
+
+def mixTxtOut (tag : Str) (t0 : Str) (segs : List MSeg) : Str :=
+  '<' :: tag ++ ['>'] ++ Ser.escCdata t0 ++ outM segs ++ ('<' :: '/' :: tag ++ ['>'])
+
+theorem serialize_tailedFinM (s : MSeg) (hk : s.k.fine) :
+    Ser.serialize .xhtml (tailedFinM s) = s.k.out ++ Ser.escCdata s.t := by
+  obtain ⟨k, t⟩ := s
+  cases k with
+  | code n b => exact serialize_tailedFin ⟨n, b, t⟩
+  | em st d w => exact serialize_tailedEmFin ⟨st, d, w, t⟩ hk.2
+
+theorem serializeList_tailedM (segs : List MSeg) (hk : ∀ s ∈ segs, s.k.fine) :
+    Ser.serializeList .xhtml (segs.map tailedFinM) = outM segs := by
+  induction segs with
+  | nil => rfl
+  | cons s r ih =>
+    rw [List.map_cons, serializeList_cons, ih (fun x hx => hk x (List.mem_cons_of_mem _ hx)),
+      serialize_tailedFinM s (hk s List.mem_cons_self), outM_cons]
+
+theorem ser_mixTxt (tag : Str) (htag : textTags.contains tag = true) (t0 : Str) (segs : List MSeg)
+    (hk : ∀ s ∈ segs, s.k.fine) :
+    Ser.serialize .xhtml (mixTxtFin tag t0 segs) = mixTxtOut tag t0 segs ++ ['\n'] := by
+  have hf := tagFacts tag (List.mem_cons_of_mem _ (List.contains_iff_mem.1 htag))
+  have hnot : tag ≠ "hr".toList := by
+    intro e
+    have : textTags.contains "hr".toList = false := by decide
+    rw [← e, htag] at this; cases this
+  have he : Ser.isEmptyTag tag = false := by rw [hf.2.2.2.2.2.1]; simpa using hnot
+  have e7 : Ser.escCdata ['\n'] = ['\n'] := by decide
+  have t1 : Node.truthy (some ['\n']) = true := rfl
+  simp only [mixTxtFin]
+  rw [serialize_plain _ _ _ _ _ _ _ he hf.2.2.2.2.1]
+  simp only [serializeList_tailedM segs hk, optEsc, t1, if_true, Option.getD_some, e7, mixTxtOut]
+  simp [List.append_assoc]
+
+theorem stx_not_mem_kout_code (n : Nat) (b : Str) (hk : (MKind.code n b).clean) :
+    Post.STX ∉ (MKind.code n b).out := by
+  intro hm
+  have hm' : Post.STX ∈ "<code>".toList ++ Ser.escCdata (Code.codeEscape b) ++ "</code>".toList := hm
+  rcases List.mem_append.1 hm' with h | h
+  · rcases List.mem_append.1 h with h | h
+    · revert h; decide
+    · exact stx_not_mem_escCdata _ hk h
+  · revert h; decide
+
+theorem stx_not_mem_kout_em (st : Bool) (d : Char) (w : Str) (hk : (MKind.em st d w).clean) :
+    Post.STX ∉ (MKind.em st d w).out := by
+  intro hm
+  have htag : Post.STX ∉ emTagS st := by cases st <;> decide
+  have d1 : Post.STX ≠ '<' := by decide
+  have d2 : Post.STX ≠ '>' := by decide
+  have d3 : Post.STX ≠ '/' := by decide
+  have hw := stx_not_mem_escCdata _ (show Post.STX ∉ w from hk)
+  have hm' : Post.STX ∈ '<' :: emTagS st ++ ['>'] ++ Ser.escCdata w ++ ('<' :: '/' :: emTagS st ++ ['>']) := hm
+  simp only [List.mem_append, List.mem_cons, List.not_mem_nil, d1, d2, d3, htag, hw, or_self, or_false,
+    false_or] at hm'
+
+theorem stx_not_mem_kout (k : MKind) (hk : k.clean) : Post.STX ∉ k.out :=
+  match k, hk with
+  | .code n b, hk => stx_not_mem_kout_code n b hk
+  | .em st d w, hk => stx_not_mem_kout_em st d w hk
+
+theorem stx_not_mem_outM (segs : List MSeg) (h : ∀ s ∈ segs, Post.STX ∉ s.t ∧ s.k.clean) : Post.STX ∉ outM segs := by
+  induction segs with
+  | nil => intro hm; cases hm
+  | cons s r ih =>
+    obtain ⟨h1, h2⟩ := h s List.mem_cons_self
+    intro hm
+    rw [outM_cons] at hm
+    simp only [List.mem_append] at hm
+    rcases hm with (hm | hm) | hm
+    · exact stx_not_mem_kout s.k h2 hm
+    · exact stx_not_mem_escCdata _ h1 hm
+    · exact ih (fun x hx => h x (List.mem_cons_of_mem _ hx)) hm
+
+
+/-- a `p`/`h1`–`h6` element of escaped text, code spans and emphasised words, through the stages -/
+def mixTxtElem (esc : List Char) (tag t0 : Str) (segs : List MSeg) : Elem :=
+  ⟨mixTxtSrc esc tag t0 segs, mixTxtMid esc tag t0 segs,
+   nodesOf 0 segs ++ (stashOf esc t0 ++ stashOfM esc segs) ++ nodesOf 1 segs ++ nodesOf 2 segs,
+   fun i => ((List.range segs.length).map (fun k => [i, k])).reverse,
+   mixTxtPretty esc tag t0 segs, mixTxtFin tag t0 segs, mixTxtOut tag t0 segs⟩
+
+/-- what the stages need of such a line -/
+structure MixTxtOK (esc : List Char) (tag t0 : Str) (segs : List MSeg) : Prop where
+  htag : textTags.contains tag = true
+  hsegs : MSegsOK segs
+  junctions : junctionsOK t0 false segs
+  under : UnderOKM esc (lastW esc t0) segs
+  plain : ∀ c, (c ∈ t0 ∨ ∃ s ∈ segs, c ∈ s.t) → c ≠ '&' ∧ c ≠ '\n' ∧ c ≠ Inline.STX
+  clean : ∀ s ∈ segs, s.k.clean
+  ne : t0 ≠ [] ∨ segs ≠ []
+
+theorem fine_of_ok (k : MKind) (h1 : MKindOK k) (h2 : k.clean) : k.fine := by
+  cases k with
+  | code n b => trivial
+  | em st d w => exact ⟨h2, h1.2.1.1⟩
+
+theorem tailedM_childless (esc : List Char) (s : MSeg) : (tailedM esc s).children = [] := by
+  obtain ⟨k, t⟩ := s
+  cases k <;> rfl
+
+theorem mixTxtElem_ok (cfg : Inline.Cfg) (hE : EscOK cfg.esc) (tag t0 : Str) (segs : List MSeg)
+    (h : MixTxtOK cfg.esc tag t0 segs) : ElemOK cfg (mixTxtElem cfg.esc tag t0 segs) where
+  visit := fun v => visitChild_mixTxt cfg hE tag t0 segs h.hsegs h.junctions h.under h.plain h.clean h.ne v
+  pushBound := fun i => by
+    have h1 := rawM_length cfg.esc segs h.hsegs
+    simp only [mixTxtElem, List.length_reverse, List.length_map, List.length_range, mixTxtSrc, Inline.size,
+      Option.getD_some, List.length_append, Inline.sizeList]
+    omega
+  pushOk := fun i q hq => by
+    simp only [mixTxtElem, List.mem_reverse, List.mem_map, List.mem_range] at hq
+    obtain ⟨k, hk, rfl⟩ := hq
+    obtain ⟨s, hs⟩ : ∃ s, segs[k]? = some s := by
+      cases hx : segs[k]? with
+      | none => rw [List.getElem?_eq_none_iff] at hx; omega
+      | some s => exact ⟨s, rfl⟩
+    refine ⟨[k], tailedM cfg.esc s, rfl, ?_, by simp [tailedM_childless], ?_⟩
+    · simp [mixTxtElem, mixTxtMid, getAt, hs]
+    · intro c hc; rw [tailedM_childless] at hc; cases hc
+  block := (tagFacts tag (List.mem_cons_of_mem _ (List.contains_iff_mem.1 h.htag))).1
+  pretty := pretty_mixTxt cfg.esc tag h.htag t0 segs
+  unesc := unesc_mixTxt cfg.esc tag h.htag t0 segs (fun hm => (h.plain _ (Or.inl hm)).2.2 rfl)
+    (fun s hs => ⟨fun hm => (h.plain _ (Or.inr ⟨s, hs, hm⟩)).2.2 rfl, fine_of_ok s.k (h.hsegs s hs) (h.clean s hs)⟩)
+  ser := ser_mixTxt tag h.htag t0 segs (fun s hs => fine_of_ok s.k (h.hsegs s hs) (h.clean s hs))
+  outOk := by
+    have hf := tagFacts tag (List.mem_cons_of_mem _ (List.contains_iff_mem.1 h.htag))
+    refine ⟨?_, rfl, ?_⟩
+    · intro hm
+      simp only [mixTxtElem, mixTxtOut, List.mem_append, List.mem_cons] at hm
+      have d1 : Post.STX ≠ '<' := by decide
+      have d2 : Post.STX ≠ '>' := by decide
+      have d3 : Post.STX ≠ '/' := by decide
+      have h7 := hf.2.2.2.2.2.2
+      have hE0 : Post.STX ∉ Ser.escCdata t0 :=
+        stx_not_mem_escCdata _ (fun hm' => (h.plain _ (Or.inl hm')).2.2 rfl)
+      have hEs : Post.STX ∉ outM segs := stx_not_mem_outM segs
+        (fun s hs => ⟨fun hm' => (h.plain _ (Or.inr ⟨s, hs, hm'⟩)).2.2 rfl, h.clean s hs⟩)
+      rcases hm with (((h' | h' | h') | h') | h') | (h' | h' | h' | h') <;> simp_all
+    · have e : (mixTxtElem cfg.esc tag t0 segs).out =
+          ('<' :: tag ++ ['>'] ++ Ser.escCdata t0 ++ outM segs ++ ('<' :: '/' :: tag)) ++ ['>'] := by
+        simp [mixTxtElem, mixTxtOut]
+      rw [e, List.getLast?_append]; rfl
+
+
+/-! ### 28. the block parser on a mixed line -/
+
+def lastTextM (t0 : Str) (segs : List MSeg) : Str := (segs.getLast?.map (·.t)).getD t0
+
+structure MixLineOK (t0 : Str) (segs : List MSeg) : Prop where
+  nl0 : '\n' ∉ t0
+  nls : ∀ s ∈ segs, '\n' ∉ s.t ∧ '\n' ∉ s.k.src
+  ne : t0 ≠ [] ∨ segs ≠ []
+  first : t0 ≠ [] → startsVisible t0 = true
+  lastv : ∀ z, (lastTextM t0 segs).getLast? = some z → isSpace z = false
+  ok : MSegsOK segs
+
+theorem lastTextM_cons (t0 : Str) (s : MSeg) (r : List MSeg) : lastTextM t0 (s :: r) = lastTextM s.t r := by
+  cases r with
+  | nil => rfl
+  | cons a b =>
+    simp only [lastTextM, List.getLast?_cons_cons]
+    cases h : (a :: b).getLast? with
+    | none => exact absurd (List.getLast?_eq_none_iff.1 h) (by simp)
+    | some x => rfl
+
+theorem src_ends (k : MKind) (hk : MKindOK k) :
+    ∃ z, k.src.getLast? = some z ∧ isSpace z = false ∧ z ≠ '#' ∧ z ≠ '\\' := by
+  cases k with
+  | code n b =>
+    obtain ⟨⟨j, hj⟩, _⟩ := hk
+    exact ⟨'`', by rw [MKind.src, hj, spanSrc_last], by decide, by decide, by decide⟩
+  | em st d w =>
+    refine ⟨d, emSrc_last ⟨st, d, w, []⟩, ?_⟩
+    rcases hk.1 with e | e <;> rw [e] <;> exact ⟨by decide, by decide, by decide⟩
+
+theorem src_starts (k : MKind) (hk : MKindOK k) :
+    ∃ c tail, k.src = c :: tail ∧ isSpace c = false ∧ isDecimal c = false ∧ c ≠ '.' ∧
+      ((c = '`') ∨ ∃ st d w, k = .em st d w) := by
+  cases k with
+  | code n b =>
+    obtain ⟨⟨j, hj⟩, _⟩ := hk
+    refine ⟨'`', ticks j ++ (padded b ++ ticks n), ?_, by decide, by decide, by decide, Or.inl rfl⟩
+    simp [MKind.src, spanSrc, hj, ticks, List.replicate_succ]
+  | em st d w =>
+    obtain ⟨q, hq⟩ := delim_cons ⟨st, d, w, []⟩
+    refine ⟨d, q ++ (w ++ EmSeg.delim ⟨st, d, w, []⟩), by simp [MKind.src, emSrc, hq], ?_⟩
+    rcases hk.1 with e | e <;> rw [e] <;> exact ⟨by decide, by decide, by decide, Or.inr ⟨st, _, w, rfl⟩⟩
+
+theorem mix_raw_last (esc : List Char) (segs : List MSeg) :
+    ∀ (t0 : Str), MSegsOK segs →
+      (∀ z, (lastTextM t0 segs).getLast? = some z → isSpace z = false) →
+      ∀ d, (escAll esc t0 ++ rawM esc segs).getLast? = some d → isSpace d = false := by
+  induction segs with
+  | nil =>
+    intro t0 _ hl d hd
+    simp only [rawM, List.append_nil] at hd
+    cases t0 with
+    | nil => simp [escAll] at hd
+    | cons c r =>
+      rw [getLast_escAll esc (c :: r) (by simp)] at hd
+      exact hl d (by simpa [lastTextM] using hd)
+  | cons s r ih =>
+    intro t0 hn hl d hd
+    obtain ⟨z, hz, hzs, _, _⟩ := src_ends s.k (hn s List.mem_cons_self)
+    have hsne : s.k.src ≠ [] := by intro e; rw [e] at hz; simp at hz
+    simp only [rawM] at hd
+    rw [List.getLast?_append] at hd
+    have hT : (s.k.src ++ (escAll esc s.t ++ rawM esc r)).getLast? ≠ none := by
+      intro e; rw [List.getLast?_eq_none_iff] at e
+      exact hsne (List.append_eq_nil_iff.1 e).1
+    cases hx : (s.k.src ++ (escAll esc s.t ++ rawM esc r)).getLast? with
+    | none => exact absurd hx hT
+    | some x =>
+      rw [hx] at hd
+      simp only [Option.some_or, Option.some.injEq] at hd
+      subst hd
+      rw [List.getLast?_append] at hx
+      cases hy : (escAll esc s.t ++ rawM esc r).getLast? with
+      | none =>
+        rw [hy, hz] at hx
+        simp at hx; subst hx; exact hzs
+      | some y =>
+        rw [hy] at hx
+        simp only [Option.some_or, Option.some.injEq] at hx
+        subst hx
+        have hl' : ∀ z, (lastTextM s.t r).getLast? = some z → isSpace z = false := by
+          intro z hz
+          apply hl z
+          rw [lastTextM_cons]; exact hz
+        exact ih s.t (fun x hx => hn x (List.mem_cons_of_mem _ hx)) hl' y hy
+
+theorem walk_src (k : MKind) (hk : MKindOK k) (hnl : '\n' ∉ k.src) : Walk k.src := by
+  obtain ⟨z, hz, _, h1, h2⟩ := src_ends k hk
+  apply hashHeader_walk _ _ (Nat.le_refl _) (by intro e; rw [e] at hz; simp at hz) hnl
+  intro z' hz'
+  rw [hz] at hz'
+  have : z = z' := by simpa using hz'
+  subst this; exact ⟨h1, h2⟩
+
+theorem walk_rawM {esc : List Char} (hE : EscOK esc) (segs : List MSeg)
+    (h : ∀ s ∈ segs, MKindOK s.k ∧ '\n' ∉ s.k.src ∧ '\n' ∉ s.t) : Walk (rawM esc segs) := by
+  induction segs with
+  | nil => exact walk_nil
+  | cons s r ih =>
+    obtain ⟨h1, h2, h3⟩ := h s List.mem_cons_self
+    simp only [rawM]
+    exact walk_append (walk_src s.k h1 h2)
+      (walk_append (walk_escAll hE s.t h3) (ih (fun x hx => h x (List.mem_cons_of_mem _ hx))))
+
+theorem mem_rawM {esc : List Char} {segs : List MSeg} {c : Char} (h : c ∈ rawM esc segs) :
+    ∃ s ∈ segs, c ∈ s.k.src ∨ c ∈ escAll esc s.t := by
+  induction segs with
+  | nil => simp [rawM] at h
+  | cons s r ih =>
+    simp only [rawM, List.mem_append] at h
+    rcases h with h | h | h
+    · exact ⟨s, List.mem_cons_self, Or.inl h⟩
+    · exact ⟨s, List.mem_cons_self, Or.inr h⟩
+    · obtain ⟨x, hx, hc⟩ := ih h
+      exact ⟨x, List.mem_cons_of_mem _ hx, hc⟩
+
+theorem rawOK_mixLine {esc : List Char} (hE : EscOK esc) (t0 : Str) (segs : List MSeg) (h : MixLineOK t0 segs) :
+    RawOK (escAll esc t0 ++ rawM esc segs) where
+  shape := by
+    cases t0 with
+    | nil =>
+      rcases h.ne with h' | h'
+      · exact absurd rfl h'
+      · cases segs with
+        | nil => exact absurd rfl h'
+        | cons s r =>
+          have hs := h.ok s List.mem_cons_self
+          obtain ⟨c, tail, hsrc, hcs, _, _, hkind⟩ := src_starts s.k hs
+          refine ⟨c, tail ++ (escAll esc s.t ++ rawM esc r), by simp [escAll, rawM, hsrc], hcs, ?_⟩
+          rcases hkind with e | ⟨st, d, w, hk⟩
+          · exact Or.inl (by rw [e]; decide)
+          · right
+            rw [hk] at hs
+            have := emStart_raw esc ⟨st, d, w, s.t⟩ [] hs.1 hs.2.1 hs.2.2
+            obtain ⟨d', m, x, tl, he, hd, h1, h2, hx⟩ := this
+            refine ⟨d', m, x, tl ++ rawM esc r, ?_, hd, h1, h2, hx⟩
+            simp only [rawEm, List.append_nil] at he
+            simp only [escAll, List.nil_append, rawM, hk, MKind.src]
+            have e2 : emSrc ⟨st, d, w, []⟩ = emSrc ⟨st, d, w, s.t⟩ := rfl
+            rw [e2, ← List.append_assoc, he]
+            simp [List.append_assoc]
+    | cons c r =>
+      have hv := h.first (by simp)
+      have hcs : isSpace c = false := by simpa [startsVisible] using hv
+      by_cases hc : c ∈ esc
+      · refine ⟨'\\', c :: escAll esc r ++ rawM esc segs, by rw [escAll_cons_mem hc]; rfl, by decide,
+          Or.inl (by decide)⟩
+      · exact ⟨c, escAll esc r ++ rawM esc segs, by rw [escAll_cons_not_mem hc]; rfl, hcs,
+          Or.inl (lineEsc_sub hE hc)⟩
+  nl := by
+    intro hm
+    rcases List.mem_append.1 hm with hm | hm
+    · rcases mem_escAll hm with e | hm
+      · exact absurd e (by decide)
+      · exact h.nl0 hm
+    · obtain ⟨s, hs, hc⟩ := mem_rawM hm
+      rcases hc with hc | hc
+      · exact (h.nls s hs).2 hc
+      · rcases mem_escAll hc with e | hc
+        · exact absurd e (by decide)
+        · exact (h.nls s hs).1 hc
+  last := mix_raw_last esc segs t0 h.ok h.lastv
+  ol := by
+    apply olMarker_none_of
+    apply no_dot_after_digits hE.dot
+    intro c hc
+    cases segs with
+    | nil => simp [rawM] at hc
+    | cons s r =>
+      obtain ⟨c', tail, hsrc, _, h1, h2, _⟩ := src_starts s.k (h.ok s List.mem_cons_self)
+      simp [rawM, hsrc] at hc
+      subst hc; exact ⟨h1, h2⟩
+  walk := walk_append (walk_escAll hE t0 h.nl0)
+    (walk_rawM hE segs (fun s hs => ⟨h.ok s hs, (h.nls s hs).2, (h.nls s hs).1⟩))
+
+
+/-! ### 29. a mixed paragraph or heading as a piece -/
+
+def mixPiece (esc : List Char) (g : List Str) (tag t0 : Str) (segs : List MSeg) : Piece2 :=
+  ⟨chunkB g (mixTxtSrc esc tag t0 segs), mixTxtElem esc tag t0 segs, mixTxtElem esc tag t0 segs⟩
+
+theorem mixTxtSrc_clean (esc : List Char) (tag : Str) (htag : textTags.contains tag = true) (t0 : Str)
+    (segs : List MSeg) :
+    isListTag (mixTxtSrc esc tag t0 segs) = false ∧ preCode (mixTxtSrc esc tag t0 segs) = none := by
+  have hmem : tag ∈ "hr".toList :: textTags := List.mem_cons_of_mem _ (List.contains_iff_mem.1 htag)
+  have key : ∀ tag ∈ "hr".toList :: textTags, tag ≠ "ul".toList ∧ tag ≠ "ol".toList ∧ tag ≠ "pre".toList := by decide
+  obtain ⟨a1, a2, a3⟩ := key _ hmem
+  have b1 : tag ≠ ['u', 'l'] := a1
+  have b2 : tag ≠ ['o', 'l'] := a2
+  have b3 : tag ≠ ['p', 'r', 'e'] := a3
+  constructor
+  · simp [mixTxtSrc, isListTag, Node.isTag, b1, b2]
+  · simp [mixTxtSrc, preCode, Node.isTag, b3]
+
+theorem mixPiece_ok (g : List Str) (tag t0 : Str) (segs : List MSeg)
+    (hok : MixTxtOK Generated.escapedChars tag t0 segs) (hne : g ≠ [])
+    (hnel : noEmptyLineFrom true (joinLines g) = true)
+    (hprod : Produces 4 (joinLines g) (mixTxtSrc Generated.escapedChars tag t0 segs))
+    (hsafe : ∀ l ∈ g, lineSafe l = true ∧ '<' ∉ l ∧ refsClosed l = true)
+    (hvis : ∃ c ∈ joinLines g, isSpace c = false) :
+    Piece2OK {} (mixPiece Generated.escapedChars g tag t0 segs) where
+  bok := chunkB_ok 4 g _ hne hnel hprod (mixTxtSrc_clean _ tag hok.htag t0 segs).1
+    (mixTxtSrc_clean _ tag hok.htag t0 segs).2
+  safe := hsafe
+  vis := hvis
+  src := rfl
+  srcLast := rfl
+  eok := fun refs => mixTxtElem_ok { esc := Generated.escapedChars, refs := refs } escOK_generated tag t0 segs hok
+  eokLast := fun refs => mixTxtElem_ok { esc := Generated.escapedChars, refs := refs } escOK_generated tag t0 segs hok
+  out := rfl
+
+/-! ### 30. the printed form of mixed content -/
+
+/-- an item without its spelling: a code span's body, or an emphasis' kind and words -/
+inductive QKind
+  | code (b : Str)
+  | em (strong : Bool) (w : Str)
+
+def MKind.q : MKind → QKind
+  | .code _ b => .code b
+  | .em s _ w => .em s w
+
+def QKind.isCode : QKind → Bool
+  | .code _ => true
+  | _ => false
+
+/-- the plain text before the first item, and for each item what it is and the plain text after it -/
+def splitMix : List DocSpec.Inline → Str × List (QKind × Str)
+  | [] => ([], [])
+  | .text w :: r => (w ++ (splitMix r).1, (splitMix r).2)
+  | .esc c :: r => (c :: (splitMix r).1, (splitMix r).2)
+  | .code b :: r => ([], (.code b, (splitMix r).1) :: (splitMix r).2)
+  | .em [.text w] :: r => ([], (.em false w, (splitMix r).1) :: (splitMix r).2)
+  | .strong [.text w] :: r => ([], (.em true w, (splitMix r).1) :: (splitMix r).2)
+  | _ :: r => splitMix r
+
+theorem splitMix_text (w : Str) (r : List DocSpec.Inline) :
+    splitMix (.text w :: r) = (w ++ (splitMix r).1, (splitMix r).2) := by rw [splitMix]
+theorem splitMix_esc (ch : Char) (r : List DocSpec.Inline) :
+    splitMix (.esc ch :: r) = (ch :: (splitMix r).1, (splitMix r).2) := by rw [splitMix]
+theorem splitMix_code (b : Str) (r : List DocSpec.Inline) :
+    splitMix (.code b :: r) = ([], (.code b, (splitMix r).1) :: (splitMix r).2) := by rw [splitMix]
+theorem splitMix_em (w : Str) (r : List DocSpec.Inline) :
+    splitMix (.em [.text w] :: r) = ([], (.em false w, (splitMix r).1) :: (splitMix r).2) := by rw [splitMix]
+theorem splitMix_strong (w : Str) (r : List DocSpec.Inline) :
+    splitMix (.strong [.text w] :: r) = ([], (.em true w, (splitMix r).1) :: (splitMix r).2) := by rw [splitMix]
+
+/-- the items of a well-formed run of words, escapes, code spans and emphasised words -/
+def mixItemsOK : List DocSpec.Inline → Bool
+  | [] => true
+  | .text w :: r => wfWords w && mixItemsOK r
+  | .esc c :: r => ESC.contains c && mixItemsOK r
+  | .code b :: r => wfCodeSpan b && noLt b && mixItemsOK r
+  | .em [.text w] :: r => wfLabel w && mixItemsOK r
+  | .strong [.text w] :: r => wfLabel w && mixItemsOK r
+  | _ :: _ => false
+
+/-- induction over such content -/
+theorem mixItems_ind {motive : List DocSpec.Inline → Prop} (nil : motive [])
+    (text : ∀ w r, wfWords w = true → mixItemsOK r = true → motive r → motive (.text w :: r))
+    (esc : ∀ ch r, ch ∈ ESC → mixItemsOK r = true → motive r → motive (.esc ch :: r))
+    (code : ∀ b r, wfCodeSpan b = true → noLt b = true → mixItemsOK r = true → motive r → motive (.code b :: r))
+    (em : ∀ w r, wfLabel w = true → mixItemsOK r = true → motive r → motive (.em [.text w] :: r))
+    (strong : ∀ w r, wfLabel w = true → mixItemsOK r = true → motive r → motive (.strong [.text w] :: r)) :
+    ∀ c, mixItemsOK c = true → motive c := by
+  intro c
+  induction c with
+  | nil => intro _; exact nil
+  | cons x r ih =>
+    intro h
+    cases x with
+    | text w =>
+      simp only [mixItemsOK, Bool.and_eq_true] at h
+      exact text w r h.1 h.2 (ih h.2)
+    | esc ch =>
+      simp only [mixItemsOK, Bool.and_eq_true] at h
+      exact esc ch r (List.contains_iff_mem.1 h.1) h.2 (ih h.2)
+    | code b =>
+      simp only [mixItemsOK, Bool.and_eq_true] at h
+      exact code b r h.1.1 h.1.2 h.2 (ih h.2)
+    | em l =>
+      cases l with
+      | nil => simp [mixItemsOK] at h
+      | cons y l' =>
+        cases l' with
+        | cons _ _ => cases y <;> simp [mixItemsOK] at h
+        | nil =>
+          cases y with
+          | text w =>
+            simp only [mixItemsOK, Bool.and_eq_true] at h
+            exact em w r h.1 h.2 (ih h.2)
+          | _ => simp [mixItemsOK] at h
+    | strong l =>
+      cases l with
+      | nil => simp [mixItemsOK] at h
+      | cons y l' =>
+        cases l' with
+        | cons _ _ => cases y <;> simp [mixItemsOK] at h
+        | nil =>
+          cases y with
+          | text w =>
+            simp only [mixItemsOK, Bool.and_eq_true] at h
+            exact strong w r h.1 h.2 (ih h.2)
+          | _ => simp [mixItemsOK] at h
+    | link _ _ _ => simp [mixItemsOK] at h
+    | image _ _ _ => simp [mixItemsOK] at h
+    | autolink _ => simp [mixItemsOK] at h
+    | br => simp [mixItemsOK] at h
+
+theorem mixItemsOK_of_wf (c : List DocSpec.Inline) (brOk : Bool) (hp : c.all isMixItem = true)
+    (hw : wfInlineList false .none brOk c = true) : mixItemsOK c = true := by
+  induction c with
+  | nil => rfl
+  | cons x r ih =>
+    simp only [List.all_cons, Bool.and_eq_true] at hp
+    simp only [wfInlineList, Bool.and_eq_true] at hw
+    have ihr := ih hp.2 hw.2
+    cases x with
+    | text w => simp only [wfInline] at hw; simp [mixItemsOK, hw.1, ihr]
+    | esc ch => simp only [wfInline] at hw; simp [mixItemsOK, List.contains_iff_mem.1 hw.1, ihr]
+    | code b => simp only [wfInline] at hw; simp only [isMixItem] at hp; simp [mixItemsOK, hw.1, hp.1, ihr]
+    | em l =>
+      obtain ⟨hp1, _⟩ := hp
+      cases l with
+      | nil => simp [isMixItem] at hp1
+      | cons y l' =>
+        cases l' with
+        | cons _ _ => cases y <;> simp [isMixItem] at hp1
+        | nil =>
+          cases y with
+          | text w =>
+            have h1 := hw.1
+            simp only [wfInline, wfRun, wfInlineList, startsOk, endsOk, Bool.and_eq_true] at h1
+            simp [mixItemsOK, wfLabel, h1.2.1, h1.1.2.1.1.1, h1.1.2.1.1.2, ihr]
+          | _ => simp [isMixItem] at hp1
+    | strong l =>
+      obtain ⟨hp1, _⟩ := hp
+      cases l with
+      | nil => simp [isMixItem] at hp1
+      | cons y l' =>
+        cases l' with
+        | cons _ _ => cases y <;> simp [isMixItem] at hp1
+        | nil =>
+          cases y with
+          | text w =>
+            have h1 := hw.1
+            simp only [wfInline, wfRun, wfInlineList, startsOk, endsOk, Bool.and_eq_true] at h1
+            simp [mixItemsOK, wfLabel, h1.2.1, h1.1.2.1.1.1, h1.1.2.1.1.2, ihr]
+          | _ => simp [isMixItem] at hp1
+    | link _ _ _ => simp [isMixItem] at hp
+    | image _ _ _ => simp [isMixItem] at hp
+    | autolink _ => simp [isMixItem] at hp
+    | br => simp [isMixItem] at hp
+
+
+/-- what the printer guarantees of an item's spelling -/
+def KPrinted : MKind → Prop
+  | .code n b => fenceOK n b
+  | .em _ d _ => d = '*' ∨ d = '_'
+
+theorem underOKM_mono (esc : List Char) (segs : List MSeg) (h : UnderOKM esc true segs) : UnderOKM esc false segs := by
+  cases segs with
+  | nil => trivial
+  | cons s r => exact ⟨fun hd => absurd (h.1 hd).1 (by decide), h.2⟩
+
+theorem underOKM_of_pw (b : Bool) (t : Str) (segs : List MSeg) (h : UnderOKM ESC (pwOf b t) segs) :
+    UnderOKM ESC (lastW ESC t) segs := by
+  unfold pwOf at h; unfold lastW
+  cases ht : t.getLast? with
+  | some c => rw [ht] at h; exact h
+  | none =>
+    rw [ht] at h
+    cases b with
+    | true => exact h
+    | false => exact underOKM_mono _ _ h
+
+theorem q_code_cls {k : MKind} {b : Str} (h : k.q = .code b) : k.cls = 0 := by
+  cases k with
+  | code n b' => rfl
+  | em s d w => simp [MKind.q] at h
+
+theorem nextNWM_of_boundary (r : List DocSpec.Inline) (h : mixItemsOK r = true) (endB : Bool)
+    (hb : nextBoundary endB r = true) (segs : List MSeg)
+    (hm : segs.map (fun s => (s.k.q, s.t)) = (splitMix r).2) : nextNWM ESC (splitMix r).1 segs := by
+  cases r with
+  | nil =>
+    have : segs = [] := by simpa [splitMix] using hm
+    subst this; trivial
+  | cons y r' =>
+    cases y with
+    | text w' =>
+      simp only [nextBoundary, startsBoundary, decide_eq_true_eq] at hb
+      cases w' with
+      | nil => simp at hb
+      | cons a w'' =>
+        have : a = ' ' := by simpa using hb
+        subst this
+        rw [splitMix_text]
+        exact Or.inr (by decide)
+    | esc ch =>
+      simp only [mixItemsOK, Bool.and_eq_true] at h
+      rw [splitMix_esc]
+      exact Or.inl (List.contains_iff_mem.1 h.1)
+    | code b =>
+      rw [splitMix_code] at hm ⊢
+      cases segs with
+      | nil => simp at hm
+      | cons s' segs' =>
+        simp only [List.map_cons, List.cons.injEq, Prod.mk.injEq] at hm
+        show s'.k.cls ≠ 2
+        rw [q_code_cls hm.1.1]; omega
+    | em _ => simp [nextBoundary, startsBoundary] at hb
+    | strong _ => simp [nextBoundary, startsBoundary] at hb
+    | link _ _ _ => simp [mixItemsOK] at h
+    | image _ _ _ => simp [mixItemsOK] at h
+    | autolink _ => simp [mixItemsOK] at h
+    | br => simp [mixItemsOK] at h
+
+/-- the conclusion of the print lemma for the content `c` from the boundary `prevB` on -/
+def PrintsMix (c : List DocSpec.Inline) : Prop :=
+  ∀ (prevB endB : Bool) (st : PSt), ∃ (segs : List MSeg) (st' : PSt),
+    printInlines none prevB endB c st = (escAll ESC (splitMix c).1 ++ rawM ESC segs, st') ∧
+    st'.defs = st.defs ∧ segs.map (fun s => (s.k.q, s.t)) = (splitMix c).2 ∧
+    (∀ s ∈ segs, KPrinted s.k) ∧ UnderOKM ESC (pwOf prevB (splitMix c).1) segs
+
+theorem printsMix_em_step (strong : Bool) (w : Str) (r : List DocSpec.Inline) (hr : mixItemsOK r = true)
+    (ih : PrintsMix r) (prevB endB : Bool) (st : PSt) (x : DocSpec.Inline)
+    (hx : x = (if strong then DocSpec.Inline.strong [.text w] else DocSpec.Inline.em [.text w])) :
+    ∃ (segs : List MSeg) (st' : PSt),
+      printInlines none prevB endB (x :: r) st = (rawM ESC segs, st') ∧
+      st'.defs = st.defs ∧ segs.map (fun s => (s.k.q, s.t)) = (.em strong w, (splitMix r).1) :: (splitMix r).2 ∧
+      (∀ s ∈ segs, KPrinted s.k) ∧ UnderOKM ESC (!prevB) segs := by
+  generalize hd : chooseDelim none (draw st).1 prevB (nextBoundary endB r) = d
+  have hdc := chooseDelim_cases (draw st).1 prevB (nextBoundary endB r)
+  rw [hd] at hdc
+  have hdd : d = '*' ∨ d = '_' := by rcases hdc with ⟨h, _⟩ | h; exact Or.inr h; exact Or.inl h
+  generalize hpr : (List.replicate (if strong then 2 else 1) d ++ (w ++ List.replicate (if strong then 2 else 1) d)) = E
+  have hlast : afterBoundary prevB E = !isWordCh d := by
+    rw [← hpr]
+    cases strong
+    · have : List.replicate (if false = true then 2 else 1) d ++ (w ++ List.replicate (if false = true then 2 else 1) d) =
+          (d :: w) ++ [d] := by simp
+      rw [this, afterBoundary_delims]
+    · have : List.replicate (if true = true then 2 else 1) d ++ (w ++ List.replicate (if true = true then 2 else 1) d) =
+          (d :: d :: w ++ [d]) ++ [d] := by simp [List.replicate_succ]
+      rw [this, afterBoundary_delims]
+  obtain ⟨segs, st', hp, hdf, hm, hds, hu⟩ := ih (!isWordCh d) endB (draw st).2
+  refine ⟨⟨.em strong d w, (splitMix r).1⟩ :: segs, st', ?_, by rw [hdf, draw_defs],
+    by rw [List.map_cons, hm]; rfl, ?_, ?_⟩
+  · subst hx
+    cases strong
+    · simp only [Bool.false_eq_true, if_false, printInlines, printInline, hd, List.append_nil]
+      have e : afterBoundary prevB (d :: w ++ [d]) = !isWordCh d := by
+        rw [← hlast, ← hpr]; simp
+      rw [e, hp]
+      simp [rawM, MKind.src, emSrc, EmSeg.delim, List.append_assoc]
+    · simp only [if_true, printInlines, printInline, hd, List.append_nil]
+      have e : afterBoundary prevB (d :: d :: w ++ [d, d]) = !isWordCh d := by
+        rw [← hlast, ← hpr]; simp [List.replicate_succ]
+      rw [e, hp]
+      simp [rawM, MKind.src, emSrc, EmSeg.delim, List.append_assoc, List.replicate_succ]
+  · intro s hs
+    rcases List.mem_cons.1 hs with rfl | hs
+    · exact hdd
+    · exact hds s hs
+  · refine ⟨fun hcl => ?_, underOKM_of_pw _ _ _ hu⟩
+    have hdu : d = '_' := by
+      rcases hdd with e | e
+      · rw [e] at hcl; simp [MKind.cls] at hcl
+      · exact e
+    rcases hdc with ⟨_, h1, h2⟩ | h
+    · exact ⟨by simp [h1], nextNWM_of_boundary r hr endB h2 segs hm⟩
+    · rw [hdu] at h; exact absurd h (by decide)
+
+
+theorem afterBoundary_tick (b : Bool) (X : Str) : afterBoundary b (X ++ ['`']) = true := by
+  simp [afterBoundary, isWordCh, isAsciiAlnum, isAsciiAlpha, isAsciiLower, isAsciiUpper, isAsciiDigit]
+
+/-- **the printed form** of mixed content -/
+theorem printInlines_mix (c : List DocSpec.Inline) (h : mixItemsOK c = true) : PrintsMix c := by
+  revert h
+  refine mixItems_ind (motive := PrintsMix) ?_ ?_ ?_ ?_ ?_ ?_ c
+  · intro prevB endB st
+    exact ⟨[], st, by simp [printInlines, splitMix, rawM, escAll], rfl, rfl, by simp, trivial⟩
+  · intro w r hw hr ih prevB endB st
+    simp only [wfWords, Bool.and_eq_true, Bool.not_eq_true', List.isEmpty_eq_false_iff] at hw
+    obtain ⟨segs, st', hp, hd, hm, hds, hu⟩ := ih (afterBoundary prevB w) endB st
+    refine ⟨segs, st', ?_, hd, by rw [splitMix_text]; exact hm, hds, ?_⟩
+    · simp only [printInlines, printInline, hp, splitMix_text]
+      rw [escAll_words w hw.1.2]; simp [List.append_assoc]
+    · rw [splitMix_text]
+      simp only
+      rw [pwOf_append prevB w _ hw.1.1 hw.1.2]; exact hu
+  · intro ch r hch hr ih prevB endB st
+    obtain ⟨segs, st', hp, hd, hm, hds, hu⟩ := ih (afterBoundary prevB ['\\', ch]) endB st
+    refine ⟨segs, st', ?_, hd, by rw [splitMix_esc]; exact hm, hds, ?_⟩
+    · simp only [printInlines, printInline, hp, splitMix_esc]
+      rw [escAll_esc_cons ch hch]; simp
+    · rw [splitMix_esc]
+      simp only
+      have hu' := underOKM_of_pw _ _ _ hu
+      unfold pwOf
+      cases ht : (splitMix r).1 with
+      | nil =>
+        rw [ht] at hu'
+        simpa [hch, lastW] using hu'
+      | cons a b =>
+        rw [ht] at hu'
+        have : (ch :: a :: b).getLast? = (a :: b).getLast? := List.getLast?_cons_cons
+        rw [this]
+        obtain ⟨z, hz⟩ : ∃ z, (a :: b).getLast? = some z := by
+          cases hg : (a :: b).getLast? with
+          | none => exact absurd (List.getLast?_eq_none_iff.1 hg) (by simp)
+          | some z => exact ⟨z, rfl⟩
+        simp only [lastW, hz] at hu' ⊢
+        exact hu'
+  · intro b r hw hlt hr ih prevB endB st
+    have hL : longestTickRun b ≤ 2 := (wfCodeSpan_facts hw).2.2.2.2.1
+    generalize hn : longestTickRun b + 1 + (draw st).1 % (4 - (longestTickRun b + 1)) = n
+    have hnb : fenceOK n b := by
+      have : (draw st).1 % (4 - (longestTickRun b + 1)) < 4 - (longestTickRun b + 1) := Nat.mod_lt _ (by omega)
+      constructor <;> omega
+    obtain ⟨j, hj⟩ : ∃ j, n = j + 1 := ⟨n - 1, by have := hnb.1; omega⟩
+    have hab : afterBoundary prevB (rep n '`' ++ codePad b ++ b ++ codePad b ++ rep n '`') = true := by
+      have : rep n '`' ++ codePad b ++ b ++ codePad b ++ rep n '`' =
+          (rep n '`' ++ codePad b ++ b ++ codePad b ++ rep j '`') ++ ['`'] := by
+        rw [hj]; simp [rep, List.replicate_succ', List.append_assoc]
+      rw [this, afterBoundary_tick]
+    obtain ⟨segs, st', hp, hd, hm, hds, hu⟩ := ih true endB (draw st).2
+    refine ⟨⟨.code n b, (splitMix r).1⟩ :: segs, st', ?_, by rw [hd, draw_defs],
+      by rw [List.map_cons, hm, splitMix_code]; rfl, ?_, ?_⟩
+    · simp only [printInlines, printInline, hn, hab, hp, splitMix_code]
+      simp [escAll, rawM, MKind.src, spanSrc, padded, rep, ticks, List.append_assoc]
+    · intro s hs
+      rcases List.mem_cons.1 hs with rfl | hs
+      · exact hnb
+      · exact hds s hs
+    · rw [splitMix_code]
+      refine ⟨fun hcl => ?_, ?_⟩
+      · simp [MKind.cls] at hcl
+      · rw [pwOf_true] at hu; exact hu
+  · intro w r hw hr ih prevB endB st
+    obtain ⟨segs, st', hp, hd, hm, hds, hu⟩ := printsMix_em_step false w r hr ih prevB endB st _ rfl
+    refine ⟨segs, st', ?_, hd, by rw [splitMix_em]; exact hm, hds, ?_⟩
+    · simp only [Bool.false_eq_true, if_false] at hp
+      rw [hp, splitMix_em]; simp [escAll]
+    · rw [splitMix_em]; exact hu
+  · intro w r hw hr ih prevB endB st
+    obtain ⟨segs, st', hp, hd, hm, hds, hu⟩ := printsMix_em_step true w r hr ih prevB endB st _ rfl
+    refine ⟨segs, st', ?_, hd, by rw [splitMix_strong]; exact hm, hds, ?_⟩
+    · simp only [if_true] at hp
+      rw [hp, splitMix_strong]; simp [escAll]
+    · rw [splitMix_strong]; exact hu
+
+
+/-! ### 31. from well-formed mixed content to the facts the stages need -/
+
+/-- what well-formedness says of an item -/
+def QKind.ok : QKind → Prop
+  | .code b => wfCodeSpan b = true ∧ noLt b = true
+  | .em _ w => wfLabel w = true
+
+theorem splitMix_chars (c : List DocSpec.Inline) (h : mixItemsOK c = true) :
+    (∀ ch ∈ (splitMix c).1, plainCh ch) ∧ ∀ q ∈ (splitMix c).2, (∀ ch ∈ q.2, plainCh ch) ∧ q.1.ok := by
+  revert h
+  refine mixItems_ind (motive := fun c => (∀ ch ∈ (splitMix c).1, plainCh ch) ∧
+    ∀ q ∈ (splitMix c).2, (∀ ch ∈ q.2, plainCh ch) ∧ q.1.ok) ?_ ?_ ?_ ?_ ?_ ?_ c
+  · simp [splitMix]
+  · intro w r hw _ ih
+    simp only [wfWords, Bool.and_eq_true] at hw
+    rw [splitMix_text]
+    refine ⟨?_, ih.2⟩
+    intro ch hch
+    rcases List.mem_append.1 hch with hch | hch
+    · exact Or.inl (List.all_eq_true.1 hw.1.2 ch hch)
+    · exact ih.1 ch hch
+  · intro e r he _ ih
+    rw [splitMix_esc]
+    refine ⟨?_, ih.2⟩
+    intro ch hch
+    rcases List.mem_cons.1 hch with rfl | hch
+    · exact Or.inr he
+    · exact ih.1 ch hch
+  · intro b r hw hlt _ ih
+    rw [splitMix_code]
+    refine ⟨by simp, ?_⟩
+    intro q hq
+    rcases List.mem_cons.1 hq with rfl | hq
+    · exact ⟨ih.1, hw, hlt⟩
+    · exact ih.2 q hq
+  · intro w r hw _ ih
+    rw [splitMix_em]
+    refine ⟨by simp, ?_⟩
+    intro q hq
+    rcases List.mem_cons.1 hq with rfl | hq
+    · exact ⟨ih.1, hw⟩
+    · exact ih.2 q hq
+  · intro w r hw _ ih
+    rw [splitMix_strong]
+    refine ⟨by simp, ?_⟩
+    intro q hq
+    rcases List.mem_cons.1 hq with rfl | hq
+    · exact ⟨ih.1, hw⟩
+    · exact ih.2 q hq
+
+theorem splitMix_nil_iff (c : List DocSpec.Inline) (h : mixItemsOK c = true) :
+    ((splitMix c).1 = [] ∧ (splitMix c).2 = []) ↔ c = [] := by
+  revert h
+  refine mixItems_ind (motive := fun c => ((splitMix c).1 = [] ∧ (splitMix c).2 = []) ↔ c = []) ?_ ?_ ?_ ?_ ?_ ?_ c
+  · simp [splitMix]
+  · intro w r hw _ _
+    have : w ≠ [] := by intro e; subst e; simp [wfWords] at hw
+    rw [splitMix_text]; simp [this]
+  · intro ch r _ _ _; rw [splitMix_esc]; simp
+  · intro b r _ _ _ _; rw [splitMix_code]; simp
+  · intro w r _ _ _; rw [splitMix_em]; simp
+  · intro w r _ _ _; rw [splitMix_strong]; simp
+
+theorem splitMix_first (c : List DocSpec.Inline) (h : mixItemsOK c = true) :
+    startsOk c = true → (splitMix c).1 ≠ [] → startsVisible (splitMix c).1 = true := by
+  revert h
+  refine mixItems_ind (motive := fun c => startsOk c = true → (splitMix c).1 ≠ [] →
+    startsVisible (splitMix c).1 = true) ?_ ?_ ?_ ?_ ?_ ?_ c
+  · intro hs; simp [startsOk] at hs
+  · intro w r hw _ _ hs _
+    simp only [wfWords, Bool.and_eq_true, Bool.not_eq_true'] at hw
+    simp only [startsOk, bne_iff_ne, ne_eq] at hs
+    cases w with
+    | nil => simp at hw
+    | cons a b =>
+      have ha : isAlnumSp a = true := by
+        have := hw.1.2; simp only [List.all_cons, Bool.and_eq_true] at this; exact this.1
+      have : a ≠ ' ' := by simpa using hs
+      rw [splitMix_text]
+      simp [startsVisible, alnum_visible a ha this]
+  · intro ch r hch _ _ _ _
+    rw [splitMix_esc]
+    simp [startsVisible, (escChar_facts _ hch).2.2]
+  · intro b r _ _ _ _ _ hne; rw [splitMix_code] at hne; exact absurd rfl hne
+  · intro w r _ _ _ _ hne; rw [splitMix_em] at hne; exact absurd rfl hne
+  · intro w r _ _ _ _ hne; rw [splitMix_strong] at hne; exact absurd rfl hne
+
+def lastTextMQ (p : Str × List (QKind × Str)) : Str := (p.2.getLast?.map (·.2)).getD p.1
+
+theorem lastTextMQ_same (t t' : Str) (ss : List (QKind × Str)) (hss : ss ≠ []) :
+    lastTextMQ (t, ss) = lastTextMQ (t', ss) := by
+  simp only [lastTextMQ]
+  cases hg : ss.getLast? with
+  | none => exact absurd (List.getLast?_eq_none_iff.1 hg) hss
+  | some q => rfl
+
+theorem lastTextMQ_cons (t : Str) (q : QKind × Str) (ss : List (QKind × Str)) :
+    lastTextMQ (t, q :: ss) = lastTextMQ (q.2, ss) := by
+  cases ss with
+  | nil => rfl
+  | cons a b =>
+    simp only [lastTextMQ, List.getLast?_cons_cons]
+    cases hg : (a :: b).getLast? with
+    | none => exact absurd (List.getLast?_eq_none_iff.1 hg) (by simp)
+    | some x => rfl
+
+theorem splitMix_last (c : List DocSpec.Inline) (h : mixItemsOK c = true) :
+    endsOk c = true → ∀ z, (lastTextMQ (splitMix c)).getLast? = some z → isSpace z = false := by
+  revert h
+  refine mixItems_ind (motive := fun c => endsOk c = true →
+    ∀ z, (lastTextMQ (splitMix c)).getLast? = some z → isSpace z = false) ?_ ?_ ?_ ?_ ?_ ?_ c
+  · intro he; simp [endsOk] at he
+  · intro w r hw hr ih he z hz
+    rw [splitMix_text] at hz
+    by_cases hss : (splitMix r).2 = []
+    · simp only [lastTextMQ, hss, List.getLast?_nil, Option.map_none, Option.getD_none] at hz
+      by_cases ht : (splitMix r).1 = []
+      · have hrn : r = [] := (splitMix_nil_iff r hr).1 ⟨ht, hss⟩
+        subst hrn
+        simp only [ht, List.append_nil] at hz
+        simp only [endsOk, bne_iff_ne, ne_eq] at he
+        exact alnumSp_last_visible w hw he z hz
+      · have hrn : r ≠ [] := fun e => ht (by subst e; rfl)
+        apply ih (endsOk_cons_ne hrn he) z
+        simp only [lastTextMQ, hss, List.getLast?_nil, Option.map_none, Option.getD_none]
+        rw [List.getLast?_append] at hz
+        cases hx : (splitMix r).1.getLast? with
+        | none => exact absurd (List.getLast?_eq_none_iff.1 hx) ht
+        | some q => rw [hx] at hz; simpa using hz
+    · have hrn : r ≠ [] := fun e => hss (by subst e; rfl)
+      apply ih (endsOk_cons_ne hrn he) z
+      rw [lastTextMQ_same _ (w ++ (splitMix r).1) _ hss]
+      exact hz
+  · intro ch r hch hr ih he z hz
+    rw [splitMix_esc] at hz
+    by_cases hss : (splitMix r).2 = []
+    · simp only [lastTextMQ, hss, List.getLast?_nil, Option.map_none, Option.getD_none] at hz
+      by_cases ht : (splitMix r).1 = []
+      · simp only [ht, List.getLast?_singleton, Option.some.injEq] at hz
+        subst hz
+        exact (escChar_facts _ hch).2.2
+      · have hrn : r ≠ [] := fun e => ht (by subst e; rfl)
+        apply ih (endsOk_cons_ne hrn he) z
+        simp only [lastTextMQ, hss, List.getLast?_nil, Option.map_none, Option.getD_none]
+        cases hx : (splitMix r).1 with
+        | nil => exact absurd hx ht
+        | cons a b => rw [hx] at hz; simpa [List.getLast?_cons_cons] using hz
+    · have hrn : r ≠ [] := fun e => hss (by subst e; rfl)
+      apply ih (endsOk_cons_ne hrn he) z
+      rw [lastTextMQ_same _ (ch :: (splitMix r).1) _ hss]
+      exact hz
+  · intro b r _ _ hr ih he z hz
+    rw [splitMix_code, lastTextMQ_cons] at hz
+    by_cases hrn : r = []
+    · subst hrn; simp [splitMix, lastTextMQ] at hz
+    · exact ih (endsOk_cons_ne hrn he) z hz
+  · intro w r _ hr ih he z hz
+    rw [splitMix_em, lastTextMQ_cons] at hz
+    by_cases hrn : r = []
+    · subst hrn; simp [splitMix, lastTextMQ] at hz
+    · exact ih (endsOk_cons_ne hrn he) z hz
+  · intro w r _ hr ih he z hz
+    rw [splitMix_strong, lastTextMQ_cons] at hz
+    by_cases hrn : r = []
+    · subst hrn; simp [splitMix, lastTextMQ] at hz
+    · exact ih (endsOk_cons_ne hrn he) z hz
+
+
+/-- `junctionsOK` on the split content -/
+def junctionsQ : Str → Bool → List (QKind × Str) → Prop
+  | _, _, [] => True
+  | t, pc, q :: r => (q.1.isCode = true → t.getLast? ≠ some '\\' ∧ (pc = true → t ≠ [])) ∧ junctionsQ q.2 q.1.isCode r
+
+theorem q_isCode (k : MKind) : k.q.isCode = k.isCode := by cases k <;> rfl
+
+theorem junctions_of_q (segs : List MSeg) :
+    ∀ (t : Str) (pc : Bool), junctionsQ t pc (segs.map (fun s => (s.k.q, s.t))) → junctionsOK t pc segs := by
+  induction segs with
+  | nil => intro _ _ _; trivial
+  | cons s r ih =>
+    intro t pc h
+    simp only [List.map_cons, junctionsQ, q_isCode] at h
+    exact ⟨h.1, ih _ _ h.2⟩
+
+/-- replacing the text before the list: only the first item looks at it -/
+theorem junctionsQ_retext {t : Str} {pc : Bool} {L : List (QKind × Str)} (h : junctionsQ t pc L) (t' : Str) (pc' : Bool)
+    (h' : ∀ q r, L = q :: r → q.1.isCode = true → t'.getLast? ≠ some '\\' ∧ (pc' = true → t' ≠ [])) :
+    junctionsQ t' pc' L := by
+  cases L with
+  | nil => trivial
+  | cons q r => exact ⟨fun hc => h' q r rfl hc, h.2⟩
+
+theorem startsCode_of_split (r : List DocSpec.Inline) (h : mixItemsOK r = true) (h1 : (splitMix r).1 = [])
+    (q : QKind × Str) (L : List (QKind × Str)) (h2 : (splitMix r).2 = q :: L) (hq : q.1.isCode = true) :
+    ∃ b r', r = .code b :: r' := by
+  revert h h1 h2
+  refine mixItems_ind (motive := fun r => (splitMix r).1 = [] → (splitMix r).2 = q :: L → ∃ b r', r = .code b :: r')
+    ?_ ?_ ?_ ?_ ?_ ?_ r
+  · intro _ h2; simp [splitMix] at h2
+  · intro w r' hw _ _ h1 _
+    have : w ≠ [] := by intro e; subst e; simp [wfWords] at hw
+    rw [splitMix_text] at h1; simp [this] at h1
+  · intro ch r' _ _ _ h1 _; rw [splitMix_esc] at h1; simp at h1
+  · intro b r' _ _ _ _ _ _; exact ⟨b, r', rfl⟩
+  · intro w r' _ _ _ _ h2
+    rw [splitMix_em] at h2
+    simp only [List.cons.injEq] at h2
+    rw [← h2.1] at hq; simp [QKind.isCode] at hq
+  · intro w r' _ _ _ _ h2
+    rw [splitMix_strong] at h2
+    simp only [List.cons.injEq] at h2
+    rw [← h2.1] at hq; simp [QKind.isCode] at hq
+
+theorem splitMix_junctions (c : List DocSpec.Inline) (h : mixItemsOK c = true) :
+    okAdjacents c = true → noBsBeforeCode c = true →
+      junctionsQ (splitMix c).1 false (splitMix c).2 ∧
+      (startsCode c = false → junctionsQ (splitMix c).1 true (splitMix c).2) := by
+  revert h
+  refine mixItems_ind (motive := fun c => okAdjacents c = true → noBsBeforeCode c = true →
+      junctionsQ (splitMix c).1 false (splitMix c).2 ∧
+      (startsCode c = false → junctionsQ (splitMix c).1 true (splitMix c).2)) ?_ ?_ ?_ ?_ ?_ ?_ c
+  · intro _ _; exact ⟨trivial, fun _ => trivial⟩
+  · intro w r hw hr ih ha hb
+    obtain ⟨i1, _⟩ := ih (okAdjacents_tail ha) (noBs_tail hb)
+    simp only [wfWords, Bool.and_eq_true, Bool.not_eq_true', List.isEmpty_eq_false_iff] at hw
+    rw [splitMix_text]
+    have key : ∀ pc, junctionsQ (w ++ (splitMix r).1) pc (splitMix r).2 := by
+      intro pc
+      apply junctionsQ_retext i1
+      intro q L hL hq
+      refine ⟨?_, fun _ => by simp [hw.1.1]⟩
+      rw [List.getLast?_append]
+      cases ht : (splitMix r).1.getLast? with
+      | none =>
+        simp only [Option.none_or]
+        intro hl
+        exact alnumSp_ne_bs (List.all_eq_true.1 hw.1.2 _ (List.mem_of_getLast? hl)) rfl
+      | some z =>
+        simp only [Option.some_or]
+        rw [hL] at i1
+        have := (i1.1 hq).1
+        rw [ht] at this; exact this
+    exact ⟨key false, fun _ => key true⟩
+  · intro ch r hch hr ih ha hb
+    obtain ⟨i1, _⟩ := ih (okAdjacents_tail ha) (noBs_tail hb)
+    rw [splitMix_esc]
+    have key : ∀ pc, junctionsQ (ch :: (splitMix r).1) pc (splitMix r).2 := by
+      intro pc
+      apply junctionsQ_retext i1
+      intro q L hL hq
+      refine ⟨?_, fun _ => by simp⟩
+      cases ht : (splitMix r).1 with
+      | nil =>
+        obtain ⟨b, r', hr'⟩ := startsCode_of_split r hr ht q L hL hq
+        subst hr'
+        simp only [noBsBeforeCode, Bool.and_eq_true, bne_iff_ne, ne_eq] at hb
+        simpa using hb.1
+      | cons a b =>
+        rw [hL, ht] at i1
+        have := (i1.1 hq).1
+        simpa [List.getLast?_cons_cons] using this
+    exact ⟨key false, fun _ => key true⟩
+  · intro b r _ _ hr ih ha hb
+    obtain ⟨_, i2⟩ := ih (okAdjacents_tail ha) (noBs_tail hb)
+    have hns : startsCode r = false := by
+      cases r with
+      | nil => rfl
+      | cons y r' =>
+        cases y <;> first | rfl | skip
+        rw [okAdjacents] at ha
+        simp [okAdjacent, isCodeSpan] at ha
+    rw [splitMix_code]
+    refine ⟨⟨fun _ => ⟨by simp, fun e => absurd e (by decide)⟩, i2 hns⟩, fun e => ?_⟩
+    simp [startsCode] at e
+  · intro w r _ hr ih ha hb
+    obtain ⟨i1, _⟩ := ih (okAdjacents_tail ha) (noBs_tail hb)
+    rw [splitMix_em]
+    exact ⟨⟨fun e => by simp [QKind.isCode] at e, i1⟩, fun _ => ⟨fun e => by simp [QKind.isCode] at e, i1⟩⟩
+  · intro w r _ hr ih ha hb
+    obtain ⟨i1, _⟩ := ih (okAdjacents_tail ha) (noBs_tail hb)
+    rw [splitMix_strong]
+    exact ⟨⟨fun e => by simp [QKind.isCode] at e, i1⟩, fun _ => ⟨fun e => by simp [QKind.isCode] at e, i1⟩⟩
+
+
+theorem mem_emSrc' {st : Bool} {d : Char} {w : Str} {c : Char} (h : c ∈ emSrc ⟨st, d, w, []⟩) : c = d ∨ c ∈ w :=
+  mem_emSrc h
+
+/-- everything the proofs use of well-formed mixed content, about its split form `t0`, `segs` (the items with the
+    fences and delimiters the printer chose) -/
+structure MixContentOK (c : List DocSpec.Inline) (t0 : Str) (segs : List MSeg) : Prop where
+  items : mixItemsOK c = true
+  run : wfRun .none c = true
+  nobs : noBsBeforeCode c = true
+  t0eq : t0 = (splitMix c).1
+  smap : segs.map (fun s => (s.k.q, s.t)) = (splitMix c).2
+  printed : ∀ s ∈ segs, KPrinted s.k
+  under : UnderOKM ESC (lastW ESC t0) segs
+
+theorem mem_segs_splitMix {c : List DocSpec.Inline} {t0 : Str} {segs : List MSeg} (h : MixContentOK c t0 segs)
+    {s : MSeg} (hs : s ∈ segs) : (s.k.q, s.t) ∈ (splitMix c).2 := by
+  rw [← h.smap]; exact List.mem_map.2 ⟨s, hs, rfl⟩
+
+theorem kindOK_of (k : MKind) (hq : k.q.ok) (hp : KPrinted k) : MKindOK k ∧ k.clean ∧ '\n' ∉ k.src := by
+  cases k with
+  | code n b =>
+    obtain ⟨hw, hlt⟩ := hq
+    obtain ⟨hne, hpr, _, _, _, _⟩ := wfCodeSpan_facts hw
+    have hpo := padded_ok n b hw hp
+    refine ⟨hpo, ?_, ?_⟩
+    · intro hm
+      rcases mem_codeEscape hm with hm | hm
+      · exact (printable_facts (hpr _ hm)).2.2.2.1 rfl
+      · revert hm; decide
+    · intro hm
+      simp only [MKind.src, spanSrc, ticks, padded, List.mem_append] at hm
+      have hpad : ∀ x ∈ codePad b, x = ' ' := by
+        intro x hx; unfold codePad at hx; split at hx <;> simp at hx; exact hx
+      rcases hm with hm | ((hm | hm) | hm) | hm
+      · exact absurd (List.eq_of_mem_replicate hm) (by decide)
+      · exact absurd (hpad _ hm) (by decide)
+      · exact (printable_facts (hpr _ hm)).1 rfl
+      · exact absurd (hpad _ hm) (by decide)
+      · exact absurd (List.eq_of_mem_replicate hm) (by decide)
+  | em st d w =>
+    obtain ⟨hw, hh⟩ := wordOK_of_label hq
+    refine ⟨⟨hp, hw, hh⟩, fun hm => (wordCh_facts (hw.2 _ hm)).2.2.2.2.2.2.2.2 rfl, ?_⟩
+    intro hm
+    rcases mem_emSrc' hm with e | e
+    · rcases hp with e' | e' <;> rw [e'] at e <;> exact absurd e (by decide)
+    · exact (wordCh_facts (hw.2 _ e)).2.2.2.2.2.2.2.1 rfl
+
+theorem lastTextM_eq (t0 : Str) (segs : List MSeg) :
+    lastTextM t0 segs = lastTextMQ (t0, segs.map (fun s => (s.k.q, s.t))) := by
+  simp only [lastTextM, lastTextMQ, List.getLast?_map]
+  cases segs.getLast? <;> rfl
+
+theorem MixContentOK.facts {c : List DocSpec.Inline} {t0 : Str} {segs : List MSeg} (h : MixContentOK c t0 segs) :
+    MSegsOK segs ∧ (∀ s ∈ segs, s.k.clean) ∧ junctionsOK t0 false segs ∧ MixLineOK t0 segs ∧
+      (∀ ch, (ch ∈ t0 ∨ ∃ s ∈ segs, ch ∈ s.t) → plainCh ch) ∧ (∀ s ∈ segs, s.k.q.ok) := by
+  have hrun := h.run
+  simp only [wfRun, Bool.and_eq_true, decide_eq_true_eq, Bool.or_eq_true] at hrun
+  obtain ⟨⟨⟨hst, hen⟩, hadj⟩, _⟩ := hrun
+  obtain ⟨hc0, hcs⟩ := splitMix_chars c h.items
+  have hplain : ∀ ch, (ch ∈ t0 ∨ ∃ s ∈ segs, ch ∈ s.t) → plainCh ch := by
+    intro ch hch
+    rcases hch with hch | ⟨s, hs, hch⟩
+    · rw [h.t0eq] at hch; exact hc0 ch hch
+    · exact (hcs _ (mem_segs_splitMix h hs)).1 ch hch
+  have hq : ∀ s ∈ segs, s.k.q.ok := fun s hs => (hcs _ (mem_segs_splitMix h hs)).2
+  have hk := fun s hs => kindOK_of s.k (hq s hs) (h.printed s hs)
+  have hok : MSegsOK segs := fun s hs => (hk s hs).1
+  have hne : c ≠ [] := by intro e; subst e; simp [startsOk] at hst
+  have hj : junctionsOK t0 false segs := by
+    apply junctions_of_q
+    rw [h.smap, h.t0eq]
+    exact (splitMix_junctions c h.items hadj h.nobs).1
+  refine ⟨hok, fun s hs => (hk s hs).2.1, hj, ⟨?_, ?_, ?_, ?_, ?_, hok⟩, hplain, hq⟩
+  · exact fun hm => (plainCh_facts (hplain _ (Or.inl hm))).2.1 rfl
+  · exact fun s hs => ⟨fun hm => (plainCh_facts (hplain _ (Or.inr ⟨s, hs, hm⟩))).2.1 rfl, (hk s hs).2.2⟩
+  · by_cases ht : t0 = []
+    · right
+      intro hs
+      have : (splitMix c).1 = [] ∧ (splitMix c).2 = [] := by
+        rw [← h.t0eq, ← h.smap, hs]; exact ⟨ht, rfl⟩
+      exact hne ((splitMix_nil_iff c h.items).1 this)
+    · exact Or.inl ht
+  · intro ht
+    rw [h.t0eq] at ht ⊢
+    exact splitMix_first c h.items hst ht
+  · intro z hz
+    rw [lastTextM_eq, h.smap, h.t0eq] at hz
+    exact splitMix_last c h.items hen z hz
+
+theorem MixContentOK.mixTxtOK {c : List DocSpec.Inline} {t0 : Str} {segs : List MSeg} (h : MixContentOK c t0 segs)
+    (tag : Str) (htag : textTags.contains tag = true) : MixTxtOK ESC tag t0 segs := by
+  obtain ⟨h1, h2, h3, h4, h5, _⟩ := h.facts
+  refine ⟨htag, h1, h3, h.under, fun ch hch => ?_, h2, h4.ne⟩
+  obtain ⟨_, a2, a3, _, a5⟩ := plainCh_facts (h5 ch hch); exact ⟨a3, a2, a5⟩
+
+/-! #### the printed line is safe for the preprocessors -/
+
+theorem src_chars (k : MKind) (hq : k.q.ok) (hp : KPrinted k) : ∀ ch ∈ k.src, okCh ch := by
+  intro ch hc
+  have hsp : okCh ' ' := ⟨by decide, by decide, by decide, by decide, by decide, by decide⟩
+  cases k with
+  | code n b =>
+    obtain ⟨hw, hlt⟩ := hq
+    obtain ⟨_, hpr, _⟩ := wfCodeSpan_facts hw
+    simp only [MKind.src, spanSrc, ticks, padded, List.mem_append] at hc
+    have hpad : ∀ x ∈ codePad b, x = ' ' := by
+      intro x hx; unfold codePad at hx; split at hx <;> simp at hx; exact hx
+    have htick : okCh '`' := ⟨by decide, by decide, by decide, by decide, by decide, by decide⟩
+    rcases hc with hc | ((hc | hc) | hc) | hc
+    · rw [List.eq_of_mem_replicate hc]; exact htick
+    · rw [hpad _ hc]; exact hsp
+    · refine okCh_printable (hpr _ hc) ?_
+      intro e; subst e
+      simp only [noLt, Bool.not_eq_true'] at hlt
+      have : b.contains '<' = true := List.contains_iff_mem.2 hc
+      rw [hlt] at this; cases this
+    · rw [hpad _ hc]; exact hsp
+    · rw [List.eq_of_mem_replicate hc]; exact htick
+  | em st d w =>
+    obtain ⟨hw, _⟩ := wordOK_of_label hq
+    rcases mem_emSrc' hc with e | e
+    · rcases hp with e' | e' <;> rw [e, e'] <;>
+        exact ⟨by decide, by decide, by decide, by decide, by decide, by decide⟩
+    · exact (okCh_of_alnumSp (hw.2 _ e)).1
+
+theorem mix_raw_chars {c : List DocSpec.Inline} {t0 : Str} {segs : List MSeg} (h : MixContentOK c t0 segs) :
+    ∀ ch ∈ escAll ESC t0 ++ rawM ESC segs, okCh ch := by
+  obtain ⟨_, _, _, _, h3, hq⟩ := h.facts
+  have hpl : ∀ x, plainCh x → okCh x := fun x hx => okCh_plain (plainCh_facts hx).1 (plainCh_facts hx).2.1
+  have hesc : ∀ (t : Str), (∀ x ∈ t, plainCh x) → ∀ x ∈ escAll ESC t, okCh x := by
+    intro t ht x hx
+    rcases mem_escAll hx with rfl | hx
+    · exact ⟨by decide, by decide, by decide, by decide, by decide, by decide⟩
+    · exact hpl x (ht x hx)
+  intro ch hch
+  rcases List.mem_append.1 hch with hch | hch
+  · exact hesc t0 (fun x hx => h3 x (Or.inl hx)) ch hch
+  · obtain ⟨s, hs, hc | hc⟩ := mem_rawM hch
+    · exact src_chars s.k (hq s hs) (h.printed s hs) ch hc
+    · exact hesc s.t (fun x hx => h3 x (Or.inr ⟨s, hs, hx⟩)) ch hc
+
+theorem refsClosed_spanSrc (n : Nat) (b : Str) (hk : ∃ k, n = k + 1) (hw : wfCodeSpan b = true) (Z : Str)
+    (hZ : refsClosed Z = true) : refsClosed (spanSrc n b ++ Z) = true := by
+  obtain ⟨k, hk⟩ := hk
+  obtain ⟨_, _, _, _, _, hamp⟩ := wfCodeSpan_facts hw
+  have hpad : '&' ∉ codePad b := by
+    intro hm; unfold codePad at hm; split at hm <;> simp at hm
+  have hafter : ∃ c0 X0, codePad b ++ (ticks n ++ Z) = c0 :: X0 ∧
+      isNeutral c0 = true ∧ refsClosed (c0 :: X0) = true := by
+    have hcl : refsClosed (ticks n ++ Z) = true := refsClosed_ticks _ hZ
+    unfold codePad
+    split
+    · exact ⟨' ', _, rfl, by decide, refsClosed_cons_of_ne (by decide) hcl⟩
+    · rw [hk] at hcl ⊢
+      exact ⟨'`', ticks k ++ Z, by simp [ticks, List.replicate_succ],
+        by decide, by simpa [ticks, List.replicate_succ] using hcl⟩
+  obtain ⟨c0, X0, he, hn, hc⟩ := hafter
+  have hbody : refsClosed (b ++ (codePad b ++ (ticks n ++ Z))) = true := by
+    rw [he]; exact refsClosed_append b c0 X0 hn (refsClosed_of_noAmpHash b hamp) hc
+  have : spanSrc n b ++ Z = ticks n ++ (codePad b ++ (b ++ (codePad b ++ (ticks n ++ Z)))) := by
+    simp [spanSrc, padded, List.append_assoc]
+  rw [this]
+  exact refsClosed_ticks _ (refsClosed_noamp_append _ _ hpad hbody)
+
+theorem refsClosed_rawM (segs : List MSeg)
+    (h : ∀ s ∈ segs, s.k.q.ok ∧ KPrinted s.k ∧ ∀ x ∈ s.t, plainCh x) (Z : Str)
+    (hZ : refsClosed Z = true) : refsClosed (rawM ESC segs ++ Z) = true := by
+  induction segs with
+  | nil => simpa [rawM] using hZ
+  | cons s r ih =>
+    obtain ⟨hq, hp, hpl⟩ := h s List.mem_cons_self
+    have ihr := ih (fun x hx => h x (List.mem_cons_of_mem _ hx))
+    have hrest : refsClosed (escAll ESC s.t ++ (rawM ESC r ++ Z)) = true :=
+      refsClosed_noamp_append _ _ (no_amp_escAll s.t hpl) ihr
+    have e : rawM ESC (s :: r) ++ Z = s.k.src ++ (escAll ESC s.t ++ (rawM ESC r ++ Z)) := by
+      simp [rawM, List.append_assoc]
+    rw [e]
+    cases hk : s.k with
+    | code n b =>
+      rw [hk] at hq hp
+      exact refsClosed_spanSrc n b (padded_ok n b hq.1 hp).1 hq.1 _ hrest
+    | em st d w =>
+      rw [hk] at hq hp
+      obtain ⟨hw, _⟩ := wordOK_of_label hq
+      apply refsClosed_noamp_append _ _ _ hrest
+      intro hm
+      rcases mem_emSrc' hm with e' | e'
+      · rcases hp with e2 | e2 <;> rw [e2] at e' <;> exact absurd e' (by decide)
+      · exact (wordCh_facts (hw.2 _ e')).2.2.2.2.2.2.1 rfl
+
+theorem refsClosed_mixRaw {c : List DocSpec.Inline} {t0 : Str} {segs : List MSeg} (h : MixContentOK c t0 segs)
+    (P Q : Str) (hP : '&' ∉ P) (hQ : '&' ∉ Q) :
+    refsClosed (P ++ (escAll ESC t0 ++ rawM ESC segs) ++ Q) = true := by
+  obtain ⟨_, _, _, _, h3, hq⟩ := h.facts
+  have hQc : refsClosed Q = true := refsClosed_of_no_amp Q hQ
+  have := refsClosed_rawM segs (fun s hs => ⟨hq s hs, h.printed s hs, fun x hx => h3 x (Or.inr ⟨s, hs, hx⟩)⟩) Q hQc
+  have h0 := refsClosed_noamp_append _ _ (no_amp_escAll t0 (fun x hx => h3 x (Or.inl hx))) this
+  have := refsClosed_noamp_append P _ hP h0
+  simpa [List.append_assoc] using this
+
+
+/-! ### 32. the specification side, and the pieces of mixed paragraphs and headings -/
+
+def QKind.spec : QKind → Str
+  | .code b => S "<code>" ++ htmlEsc b ++ S "</code>"
+  | .em st w => '<' :: emTagS st ++ ['>'] ++ htmlEsc w ++ ('<' :: '/' :: emTagS st ++ ['>'])
+
+theorem QKind.spec_code (b : Str) : (QKind.code b).spec = S "<code>" ++ htmlEsc b ++ S "</code>" := rfl
+theorem QKind.spec_em (st : Bool) (w : Str) :
+    (QKind.em st w).spec = '<' :: emTagS st ++ ['>'] ++ htmlEsc w ++ ('<' :: '/' :: emTagS st ++ ['>']) := rfl
+
+def specMix : List (QKind × Str) → Str
+  | [] => []
+  | q :: r => q.1.spec ++ htmlEsc q.2 ++ specMix r
+
+theorem specMix_cons (q : QKind × Str) (r : List (QKind × Str)) :
+    specMix (q :: r) = q.1.spec ++ htmlEsc q.2 ++ specMix r := rfl
+
+theorem specInlines_splitMix (c : List DocSpec.Inline) (h : mixItemsOK c = true) :
+    specInlines c = htmlEsc (splitMix c).1 ++ specMix (splitMix c).2 := by
+  revert h
+  refine mixItems_ind (motive := fun c => specInlines c = htmlEsc (splitMix c).1 ++ specMix (splitMix c).2)
+    ?_ ?_ ?_ ?_ ?_ ?_ c
+  · rfl
+  · intro w r _ _ ih
+    rw [specInlines_cons, specInline_text, ih, splitMix_text, htmlEsc_append, List.append_assoc]
+  · intro ch r _ _ ih
+    have : ch :: (splitMix r).1 = [ch] ++ (splitMix r).1 := rfl
+    rw [specInlines_cons, specInline_esc, ih, splitMix_esc, this, htmlEsc_append, List.append_assoc]
+  · intro b r _ _ _ ih
+    rw [specInlines_cons, specInline_code, ih, splitMix_code, specMix_cons, QKind.spec_code]
+    simp only [List.append_assoc]
+    rfl
+  · intro w r _ _ ih
+    rw [specInlines_cons, specInline_em, ih, splitMix_em, specMix_cons, QKind.spec_em]
+    simp only [List.append_assoc]
+    rfl
+  · intro w r _ _ ih
+    rw [specInlines_cons, specInline_strong, ih, splitMix_strong, specMix_cons, QKind.spec_em]
+    simp only [List.append_assoc]
+    rfl
+
+open Code in
+theorem kout_eq_code (n : Nat) (b : Str) : (MKind.code n b).out = (MKind.code n b).q.spec := by
+  show "<code>".toList ++ Ser.escCdata (Code.codeEscape b) ++ "</code>".toList = S "<code>" ++ htmlEsc b ++ S "</code>"
+  rw [htmlEsc_eq_codeEscape b, codeEscape_onepass, escCdata_codeEscape1]
+
+theorem kout_eq_em (st : Bool) (d : Char) (w : Str) (hw : '&' ∉ w) : (MKind.em st d w).out = (MKind.em st d w).q.spec := by
+  show '<' :: emTagS st ++ ['>'] ++ Ser.escCdata w ++ ('<' :: '/' :: emTagS st ++ ['>']) =
+    '<' :: emTagS st ++ ['>'] ++ htmlEsc w ++ ('<' :: '/' :: emTagS st ++ ['>'])
+  rw [htmlEsc_eq_escCdata w hw]
+
+/-- no `&` in the words of an emphasis -/
+def MKind.noAmp : MKind → Prop
+  | .code _ _ => True
+  | .em _ _ w => '&' ∉ w
+
+theorem kout_eq (k : MKind) (h : k.noAmp) : k.out = k.q.spec :=
+  match k, h with
+  | .code n b, _ => kout_eq_code n b
+  | .em st d w, h => kout_eq_em st d w h
+
+theorem outM_eq (segs : List MSeg) (h : ∀ s ∈ segs, '&' ∉ s.t ∧ s.k.noAmp) :
+    outM segs = specMix (segs.map (fun s => (s.k.q, s.t))) := by
+  induction segs with
+  | nil => rfl
+  | cons s r ih =>
+    rw [outM_cons, List.map_cons, specMix_cons, ih (fun x hx => h x (List.mem_cons_of_mem _ hx)),
+      htmlEsc_eq_escCdata s.t (h s List.mem_cons_self).1, kout_eq s.k (h s List.mem_cons_self).2]
+
+theorem mixTxtOut_eq {c : List DocSpec.Inline} {t0 : Str} {segs : List MSeg} (h : MixContentOK c t0 segs)
+    (tag : Str) : mixTxtOut tag t0 segs = '<' :: tag ++ ['>'] ++ specInlines c ++ ('<' :: '/' :: tag ++ ['>']) := by
+  obtain ⟨_, _, _, _, h3, hq⟩ := h.facts
+  have ha0 : '&' ∉ t0 := fun hm => (plainCh_facts (h3 _ (Or.inl hm))).2.2.1 rfl
+  have has : ∀ s ∈ segs, '&' ∉ s.t ∧ s.k.noAmp := fun s hs =>
+    ⟨fun hm => (plainCh_facts (h3 _ (Or.inr ⟨s, hs, hm⟩))).2.2.1 rfl, by
+      have := hq s hs
+      cases hk : s.k with
+      | code n b => trivial
+      | em st d w =>
+        rw [hk] at this
+        exact fun hm => (wordCh_facts ((wordOK_of_label this).1.2 _ hm)).2.2.2.2.2.2.1 rfl⟩
+  rw [specInlines_splitMix c h.items, ← h.t0eq, ← h.smap, ← outM_eq segs has, htmlEsc_eq_escCdata t0 ha0]
+  simp [mixTxtOut, List.append_assoc]
+
+/-! #### the printed blocks as pieces -/
+
+theorem printContent_mix (c : List DocSpec.Inline) (brOk : Bool) (hp : mixRun c = true)
+    (hw : wfInlines false .none brOk c = true) (st : PSt) :
+    ∃ (t0 : Str) (segs : List MSeg) (st' : PSt),
+      printContent c st = ([escAll ESC t0 ++ rawM ESC segs], st') ∧ st'.defs = st.defs ∧ MixContentOK c t0 segs := by
+  simp only [mixRun, Bool.and_eq_true] at hp
+  simp only [wfInlines, Bool.and_eq_true] at hw
+  have hitems := mixItemsOK_of_wf c brOk hp.1 hw.2
+  obtain ⟨segs, st', hpr, hd, hm, hds, hu⟩ := printInlines_mix c hitems true true st
+  rw [pwOf_true] at hu
+  have hok : MixContentOK c (splitMix c).1 segs := ⟨hitems, hw.1, hp.2, rfl, hm, hds, hu⟩
+  refine ⟨(splitMix c).1, segs, st', ?_, hd, hok⟩
+  obtain ⟨_, _, _, h2, _, _⟩ := hok.facts
+  have hnl := (rawOK_mixLine escOK_generated _ segs h2).nl
+  simp only [printContent, hpr]
+  rw [splitC_noNl _ (notNl_of_not_mem hnl)]
+
+/-- the facts about a line `P ++ raw ++ Q` around the content -/
+theorem line_facts_mix {c : List DocSpec.Inline} {t0 : Str} {segs : List MSeg} (h : MixContentOK c t0 segs) (P Q : Str)
+    (hP : ∀ x ∈ P, okCh x ∧ x ≠ '&') (hQ : ∀ x ∈ Q, okCh x ∧ x ≠ '&') :
+    (lineSafe (P ++ (escAll ESC t0 ++ rawM ESC segs) ++ Q) = true ∧
+      '<' ∉ P ++ (escAll ESC t0 ++ rawM ESC segs) ++ Q ∧
+      refsClosed (P ++ (escAll ESC t0 ++ rawM ESC segs) ++ Q) = true) ∧
+    '\n' ∉ P ++ (escAll ESC t0 ++ rawM ESC segs) ++ Q ∧
+    ∃ x ∈ P ++ (escAll ESC t0 ++ rawM ESC segs) ++ Q, isSpace x = false := by
+  obtain ⟨_, _, _, h2, _, _⟩ := h.facts
+  have hraw := rawOK_mixLine escOK_generated t0 segs h2
+  obtain ⟨c0, tail, he, hcs, _⟩ := hraw.shape
+  have hc0 : c0 ∈ P ++ (escAll ESC t0 ++ rawM ESC segs) ++ Q := by rw [he]; simp
+  have hch : ∀ x ∈ P ++ (escAll ESC t0 ++ rawM ESC segs) ++ Q, okCh x := by
+    intro x hx
+    simp only [List.mem_append] at hx
+    rcases hx with (hx | hx) | hx
+    · exact (hP x hx).1
+    · exact mix_raw_chars h x (List.mem_append.2 hx)
+    · exact (hQ x hx).1
+  have hs := safe_of_okCh _ hch ⟨c0, hc0, by intro e; subst e; exact absurd hcs (by decide)⟩
+  exact ⟨⟨hs.1, hs.2, refsClosed_mixRaw h P Q (fun hm => (hP _ hm).2 rfl) (fun hm => (hQ _ hm).2 rfl)⟩,
+    fun hm => (hch _ hm).1 rfl, c0, hc0, hcs⟩
+
+/-- a paragraph with code spans and emphasised words, indented by `i < 4` -/
+theorem mixPara_ok {c : List DocSpec.Inline} {t0 : Str} {segs : List MSeg} (h : MixContentOK c t0 segs) (i : Nat)
+    (hi : i < 4) :
+    Piece2OK {} (mixPiece ESC [spaces i ++ (escAll ESC t0 ++ rawM ESC segs)] "p".toList t0 segs) := by
+  obtain ⟨_, _, _, h2, _, _⟩ := h.facts
+  have hraw := rawOK_mixLine escOK_generated t0 segs h2
+  obtain ⟨⟨hs1, hs2, hs3⟩, hnl, hvis⟩ := line_facts_mix h (spaces i) [] (okCh_spaces i) (by simp)
+  simp only [List.append_nil] at hs1 hs2 hs3 hnl hvis
+  apply mixPiece_ok _ _ _ _ (h.mixTxtOK _ (by decide)) (by simp)
+  · simp only [joinLines, join_singleton]
+    apply nel_line _ _ hnl
+    obtain ⟨x, hx, _⟩ := hvis
+    intro e; rw [e] at hx; simp at hx
+  · simp only [joinLines, join_singleton]
+    exact produces_para_raw 4 i hi (by omega) _ hraw
+  · intro l hl
+    have : l = spaces i ++ (escAll ESC t0 ++ rawM ESC segs) := by simpa using hl
+    subst this; exact ⟨hs1, hs2, hs3⟩
+  · simpa [joinLines] using hvis
+
+
+/-- a Setext heading with code spans and emphasised words -/
+theorem mixSetext_ok {c : List DocSpec.Inline} {t0 : Str} {segs : List MSeg} (h : MixContentOK c t0 segs)
+    (i : Nat) (hi : i < 4) (lv k : Nat) (hlv : lv = 1 ∨ lv = 2) :
+    Piece2OK {} (mixPiece ESC [spaces i ++ (escAll ESC t0 ++ rawM ESC segs),
+      List.replicate (k + 1) (if lv = 1 then '=' else '-')] ('h' :: natToDec lv) t0 segs) := by
+  obtain ⟨_, _, _, h2, _, _⟩ := h.facts
+  have hraw := rawOK_mixLine escOK_generated t0 segs h2
+  obtain ⟨⟨hs1, hs2, hs3⟩, hnl, hvis⟩ := line_facts_mix h (spaces i) [] (okCh_spaces i) (by simp)
+  simp only [List.append_nil] at hs1 hs2 hs3 hnl hvis
+  have hprod := produces_setext_raw 4 i hi _ hraw lv k hlv
+  generalize hu : (if lv = 1 then '=' else '-') = ch at *
+  have hch2 : ch = '=' ∨ ch = '-' := by rw [← hu]; split <;> simp
+  have hunl : '\n' ∉ List.replicate (k + 1) ch := by
+    intro hm; have := List.eq_of_mem_replicate hm
+    rcases hch2 with h' | h' <;> rw [h'] at this <;> exact absurd this (by decide)
+  have hjoin : joinLines [spaces i ++ (escAll ESC t0 ++ rawM ESC segs), List.replicate (k + 1) ch] =
+      spaces i ++ (escAll ESC t0 ++ rawM ESC segs) ++ '\n' :: List.replicate (k + 1) ch := by
+    simp [joinLines, join]
+  have hlne : spaces i ++ (escAll ESC t0 ++ rawM ESC segs) ≠ [] := by
+    obtain ⟨x, hx, _⟩ := hvis
+    intro e; rw [e] at hx; simp at hx
+  apply mixPiece_ok _ _ _ _ (h.mixTxtOK _ (hTag_mem lv (by omega) (by omega))) (by simp)
+  · rw [hjoin]
+    exact nel_two_lines _ _ hlne (by simp [List.replicate_succ]) hnl hunl
+  · rw [hjoin]; exact hprod
+  · intro l hl
+    simp only [List.mem_cons, List.mem_nil_iff, or_false] at hl
+    rcases hl with rfl | rfl
+    · exact ⟨hs1, hs2, hs3⟩
+    · have hall : ∀ x ∈ List.replicate (k + 1) ch, okCh x ∧ x ≠ '&' := by
+        intro x hx; rw [List.eq_of_mem_replicate hx]
+        rcases hch2 with h' | h' <;> rw [h'] <;>
+          exact ⟨⟨by decide, by decide, by decide, by decide, by decide, by decide⟩, by decide⟩
+      have := safe_of_okCh _ (fun x hx => (hall x hx).1)
+        ⟨ch, by simp [List.replicate_succ], by rcases hch2 with h' | h' <;> rw [h'] <;> decide⟩
+      exact ⟨this.1, this.2, refsClosed_of_no_amp _ (fun hm => (hall _ hm).2 rfl)⟩
+  · obtain ⟨x, hx, hxs⟩ := hvis
+    exact ⟨x, by rw [hjoin]; exact List.mem_append_left _ hx, hxs⟩
+
+/-- an ATX heading with code spans and emphasised words -/
+theorem mixAtx_ok {c : List DocSpec.Inline} {t0 : Str} {segs : List MSeg} (h : MixContentOK c t0 segs)
+    (lv : Nat) (h1 : 1 ≤ lv) (h6 : lv ≤ 6) (Y : Str) (hY : Y = [] ∨ ∃ m, Y = ' ' :: List.replicate m '#') :
+    Piece2OK {} (mixPiece ESC [List.replicate lv '#' ++ ' ' :: ((escAll ESC t0 ++ rawM ESC segs) ++ Y)]
+      ('h' :: natToDec lv) t0 segs) := by
+  obtain ⟨_, _, _, h2, _, _⟩ := h.facts
+  have hraw := rawOK_mixLine escOK_generated t0 segs h2
+  have hhash : okCh '#' ∧ ('#' : Char) ≠ '&' :=
+    ⟨⟨by decide, by decide, by decide, by decide, by decide, by decide⟩, by decide⟩
+  have hP : ∀ x ∈ List.replicate lv '#' ++ [' '], okCh x ∧ x ≠ '&' := by
+    intro x hx
+    rcases List.mem_append.1 hx with hx | hx
+    · rw [List.eq_of_mem_replicate hx]; exact hhash
+    · have : x = ' ' := by simpa using hx
+      rw [this]; exact okCh_space
+  have hQ : ∀ x ∈ Y, okCh x ∧ x ≠ '&' := by
+    intro x hx
+    rcases hY with rfl | ⟨m, rfl⟩
+    · simp at hx
+    · rcases List.mem_cons.1 hx with hx | hx
+      · rw [hx]; exact okCh_space
+      · rw [List.eq_of_mem_replicate hx]; exact hhash
+  obtain ⟨⟨hs1, hs2, hs3⟩, hnl, hvis⟩ := line_facts_mix h _ Y hP hQ
+  have hline : List.replicate lv '#' ++ [' '] ++ (escAll ESC t0 ++ rawM ESC segs) ++ Y =
+      List.replicate lv '#' ++ ' ' :: ((escAll ESC t0 ++ rawM ESC segs) ++ Y) := by simp [List.append_assoc]
+  rw [hline] at hs1 hs2 hs3 hnl hvis
+  apply mixPiece_ok _ _ _ _ (h.mixTxtOK _ (hTag_mem lv h1 h6)) (by simp)
+  · simp only [joinLines, join_singleton]
+    apply nel_line _ _ hnl
+    obtain ⟨x, hx, _⟩ := hvis
+    intro e; rw [e] at hx; simp at hx
+  · simp only [joinLines, join_singleton]
+    exact produces_atx_raw 4 (by omega) _ hraw lv h1 h6 Y hY
+  · intro l hl
+    have : l = List.replicate lv '#' ++ ' ' :: ((escAll ESC t0 ++ rawM ESC segs) ++ Y) := by simpa using hl
+    subst this; exact ⟨hs1, hs2, hs3⟩
+  · simpa [joinLines] using hvis
+
+
+
+
+/-! #### every printed block of the sub-grammar -/
+
+theorem mixPiece_out (g : List Str) (tag t0 : Str) (segs : List MSeg) :
+    (mixPiece ESC g tag t0 segs).elem.out = mixTxtOut tag t0 segs := rfl
+
+theorem printBlock_mix (b : DocSpec.Block) (hf : isMixBlock b = true) (hw : wfBlock none b = true) (st : PSt) :
+    ∃ (p : Piece2) (st' : PSt), printBlock true b st = (p.b.g, st') ∧ st'.defs = st.defs ∧
+      Piece2OK {} p ∧ p.elem.out = specBlock b ∧ p.b.isCode = isCode b := by
+  cases b with
+  | rule => exact printBlock_span .rule rfl hw st
+  | code ls => exact printBlock_span (.code ls) hf hw st
+  | para c =>
+    simp only [isMixBlock] at hf
+    simp only [wfBlock] at hw
+    obtain ⟨t0, segs, st', hpc, hd, hok⟩ := printContent_mix c true hf hw (draw st).2
+    refine ⟨mixPiece ESC [spaces ((draw st).1 % 4) ++ (escAll ESC t0 ++ rawM ESC segs)] "p".toList t0 segs,
+      st', ?_, by rw [hd, draw_defs], mixPara_ok hok _ (Nat.mod_lt _ (by omega)), ?_, rfl⟩
+    · rw [printBlock_para, hpc]; rfl
+    · rw [mixPiece_out, mixTxtOut_eq hok, specBlock_para]
+      simp [S]
+  | atx l c =>
+    simp only [isMixBlock] at hf
+    simp only [wfBlock, Bool.and_eq_true, decide_eq_true_eq] at hw
+    obtain ⟨t0, segs, st', hpc, hd, hok⟩ := printContent_mix c false hf hw.2 (draw st).2
+    have hY : atxClosing (draw st).1 l = [] ∨ ∃ m, atxClosing (draw st).1 l = ' ' :: List.replicate m '#' := by
+      unfold atxClosing
+      split
+      · exact Or.inl rfl
+      · split
+        · exact Or.inr ⟨1, rfl⟩
+        · exact Or.inr ⟨l, rfl⟩
+    refine ⟨mixPiece ESC [List.replicate l '#' ++ ' ' :: ((escAll ESC t0 ++ rawM ESC segs) ++
+        atxClosing (draw st).1 l)] ('h' :: natToDec l) t0 segs,
+      st', ?_, by rw [hd, draw_defs], mixAtx_ok hok l hw.1.1 hw.1.2 _ hY, ?_, rfl⟩
+    · rw [printBlock_atx, hpc]
+      simp [atxLine, join, rep, List.append_assoc, mixPiece, chunkB]
+    · rw [mixPiece_out, mixTxtOut_eq hok, specBlock_atx]
+      simp [S, List.append_assoc]
+  | setext l c =>
+    simp only [isMixBlock] at hf
+    simp only [wfBlock, Bool.and_eq_true, Bool.or_eq_true, decide_eq_true_eq] at hw
+    obtain ⟨t0, segs, st', hpc, hd, hok⟩ := printContent_mix c false hf hw.2 (draw (draw st).2).2
+    refine ⟨mixPiece ESC [spaces ((draw st).1 % 4) ++ (escAll ESC t0 ++ rawM ESC segs),
+          List.replicate ((draw (draw st).2).1 % 8 + 1) (if l = 1 then '=' else '-')] ('h' :: natToDec l) t0 segs,
+      st', ?_, by rw [hd]; simp [draw_defs], mixSetext_ok hok _ (Nat.mod_lt _ (by omega)) l _ hw.1, ?_, rfl⟩
+    · rw [printBlock_setext, hpc]; rfl
+    · rw [mixPiece_out, mixTxtOut_eq hok, specBlock_setext]
+      simp [S, List.append_assoc]
+  | quote _ => simp [isMixBlock] at hf
+  | ulist _ _ => simp [isMixBlock] at hf
+  | olist _ _ => simp [isMixBlock] at hf
+
+theorem printBlocks_mix (d : Doc) (hne : d ≠ []) (hf : ∀ b ∈ d, isMixBlock b = true)
+    (hw : ∀ b ∈ d, wfBlock none b = true) (hnext : okNexts d = true) :
+    ∀ st : PSt, ∃ (ps : List Piece2) (st' : PSt), printBlocks true d st = (flatLines (ps.map (·.b.g)), st') ∧
+      st'.defs = st.defs ∧ ps ≠ [] ∧ (∀ p ∈ ps, Piece2OK {} p) ∧
+      joinOutS (ps.map (·.elem.out)) = specBlocks d ∧ noCodeAfterCode (ps.map (·.b)) ∧
+      (ps.head?.map (·.b.isCode) = d.head?.map isCode) := by
+  induction d with
+  | nil => exact absurd rfl hne
+  | cons b r ih =>
+    intro st
+    obtain ⟨p, st1, hp, hd1, hok, hout, hcode⟩ :=
+      printBlock_mix b (hf b List.mem_cons_self) (hw b List.mem_cons_self) st
+    cases r with
+    | nil =>
+      refine ⟨[p], st1, ?_, hd1, by simp, ?_, ?_, trivial, by simp [hcode]⟩
+      · rw [printBlocks_one, hp]; rfl
+      · intro q hq; have : q = p := by simpa using hq
+        subst this; exact hok
+      · rw [specBlocks_one, ← hout]; rfl
+    | cons b' r' =>
+      rw [okNexts_cons2, Bool.and_eq_true] at hnext
+      obtain ⟨ps, st2, hps, hd2, hpsne, hoks, houts, hadj, hhead⟩ := ih (by simp)
+        (fun x hx => hf x (List.mem_cons_of_mem _ hx)) (fun x hx => hw x (List.mem_cons_of_mem _ hx)) hnext.2 st1
+      obtain ⟨q, qs, rfl⟩ : ∃ q qs, ps = q :: qs := by
+        cases ps with
+        | nil => exact absurd rfl hpsne
+        | cons q qs => exact ⟨q, qs, rfl⟩
+      have hq : q.b.isCode = isCode b' := by simpa using hhead
+      refine ⟨p :: q :: qs, st2, ?_, by rw [hd2, hd1], by simp, ?_, ?_, ?_, by simp [hcode]⟩
+      · rw [printBlocks_cons2, hp]
+        simp only [hps]
+        rfl
+      · intro x hx
+        rcases List.mem_cons.1 hx with rfl | hx
+        · exact hok
+        · exact hoks x hx
+      · rw [specBlocks_cons2, ← houts, ← hout]; rfl
+      · refine ⟨?_, hadj⟩
+        intro hqc
+        rw [hq] at hqc
+        rw [hcode]
+        have h1 := hnext.1
+        simp only [okNext, hqc, Bool.and_true, Bool.and_eq_true, Bool.not_eq_true', Bool.or_eq_false_iff] at h1
+        exact h1.1.2.1
+
+/-- **C01 on documents whose paragraphs and headings mix words, escapes, code spans and emphasised words**: every spelling of a well-formed document of the
+    sub-grammar converts to what `spec` prescribes -/
+theorem convert_mixDoc (d : Doc) (sp : Spelling) (hwf : WF d = true) (hs : DocSpec.MixDoc d = true) :
+    Pipeline.convert {} (print d sp) = .ok (spec d) := by
+  simp only [WF, Bool.and_eq_true, Bool.not_eq_true', List.isEmpty_eq_false_iff] at hwf
+  obtain ⟨⟨⟨hne, hnx⟩, hbl⟩, _⟩ := hwf
+  have hf : ∀ b ∈ d, isMixBlock b = true := by
+    simpa [DocSpec.MixDoc, List.all_eq_true] using hs
+  obtain ⟨ps, st', hps, hdefs, hpsne, hoks, houts, hadj, _⟩ :=
+    printBlocks_mix d hne hf (wfBlockList_mem hbl) hnx ⟨sp.choices, 1, []⟩
+  have hprint : print d sp = joinLines (flatLines (ps.map (·.b.g))) := by
+    simp only [print, hps]
+    have : st'.defs = [] := hdefs
+    simp [this, joinLines]
+  rw [hprint, spec, ← houts]
+  exact convert_pieces2 {} rfl rfl ps hpsne hoks hadj
+
+
+
 end MdVerif.DocParse2
